@@ -8,32 +8,41 @@
 
    Unconditional (`reach`):   I_ids, C13_tables_subset, C13_closed_nowhere, C13_closed_stays_closed,
                               C13_reason_set, remove_conn_sets_reason, C19_windows_bounded,
-                              C06_ready_inbound_known;
-                              C12_outbound_owned, C12_single_outbound (no peer named "").
-   Under `reach_c` (no peer named "", clauses (i) and (ii) below):
+                              C06_ready_inbound_known, C12_outbound_owned, C12_single_outbound
+                              (C12 no longer needs "no peer named the empty string").
+   Under `reach_c` (no peer named "", clause (i') below):
                               C13_peer_conn_live(_strong), C13_peer_conn_exact (the run-level
                               converse), C13_one_conn_per_peer, C13_no_conns_no_peer_conn.
-   Under `reach_g` (reach_c and clause (iii)):
-                              C19_waiting_hosts, C19_no_conns_no_tables, C06_ready_known_g.
+   Under `reach_nc` (no peer named "", clause (iii) below):
+                              C19_waiting_hosts, C19_no_conns_no_waiting.
+   Under `reach_g` (no peer named "", clauses (i') and (iii)):
+                              C06_ready_known_g, C19_no_conns_no_tables.
    Step level:                C13_ready_flag_partial, C13_ready_flag_removed,
                               C13_peer_conn_converse_partial, C13_election_clears_rivals.
 
-   The model is the REPAIRED implementation: receive_cer runs the RFC 6733 5.6.4 election among the
-   connections that carry the CER's Origin-Host as node name; receive_cea acts only while the answer
-   is awaited and closes the connection when the Origin-Host is not the dialled peer.  The guard of the
-   earlier version (one CE message per connection, Origin-Host of a CEA = dialled peer, CE on inbound
-   connections are requests) has shrunk to conditions on capabilities-exchange REQUESTS only:
-     (i)   a connection receives at most one CER, ever;
-     (ii)  no CER is read from an outbound connection;
-     (iii) nothing is read from a connection whose connect() has not completed
-   (answers are unrestricted).  Each clause is needed (vm_compute witnesses):
-     - (i):   C13_second_cer_refuted, C19_waiting_hosts_refuted, C13_peer_conn_exact_unguarded_refuted
-     - (ii):  C13_outbound_cer_refuted
-     - (iii): C19_connecting_read_refuted (the history satisfies (i) and (ii))
-     - "no peer named the empty string": C12_empty_name_refuted.
-   No longer counterexamples, deleted: the CEA with a foreign Origin-Host (now
-   cea_foreign_identity_closed) and the two-connections-of-one-peer witnesses of the converse (now
-   election_won / election_lost; the converse is C13_peer_conn_exact). *)
+   The model is the REPAIRED implementation: receive_cer acts only while the connection awaits the CER
+   (CONNECTED) and runs the RFC 6733 5.6.4 election among the connections that carry the CER's
+   Origin-Host as node name; receive_cea acts only while the answer is awaited and closes the connection
+   when the Origin-Host is not the dialled peer; the gate drops a CE request on an outbound and a CE answer
+   on an inbound CONNECTED connection.  The former clauses (i) "at most one CER per connection" and (ii)
+   "no CER is read from an outbound connection" of the guard are gone (second_cer_ignored,
+   outbound_cer_ignored).  What is left:
+     (i')  a CER that receive_cer PROCESSES (dispatched while its connection is inbound and CONNECTED)
+           carries the connection's node name as Origin-Host unless the connection has no node name yet.
+           A CONNECTED inbound connection has a node name exactly when an earlier CER on it was answered
+           5010 NO_COMMON_APPLICATION.  `cer_guard`; a sufficient condition on the input alone is
+           `cer_guard_syn` (cer_guard_syn_sufficient);
+     (iii) nothing is read from a connection whose connect() has not completed (`conn_guard`).
+   Each is needed (vm_compute witnesses):
+     - (i'):  C13_cer_origin_change_refuted (a history satisfying (iii)),
+              C13_peer_conn_exact_unguarded_refuted, C13_one_conn_per_peer_unguarded_refuted
+     - (iii): C19_connecting_read_refuted, C06_connecting_read_refuted (histories satisfying (i'))
+     - "no peer named the empty string": C13_empty_name_refuted, C19_empty_name_refuted.
+   No longer counterexamples, deleted: C13_second_cer_refuted, C13_outbound_cer_refuted,
+   C19_waiting_hosts_refuted (their histories are now second_cer_ignored / outbound_cer_ignored, and
+   C19_waiting_hosts is proved without any condition on CE messages), the old history of
+   C13_peer_conn_exact_unguarded_refuted (replaced by one that starts with a 5010 answer), and
+   C12_empty_name_refuted (C12 is unconditional now). *)
 From DV Require Import Prelude.Base Model.Node.
 From Coq Require Import String.
 From Coq Require Import List Lia Bool Arith.
@@ -207,19 +216,17 @@ Qed.
 (* 1. atomic transitions                                                                      *)
 (* ---------------------------------------------------------------------------------------- *)
 (* MAny: no restriction.  MG nc w: (identity guard) a host identity is only ever set to the
-   connection's node name; node names are written (name_fn) only on the connections allowed by w
-   (WAll: anywhere, WOn k: on connection k, WNone: nowhere); if nc = true, in addition nothing is
-   read from a connection that is still CONNECTING. *)
-Inductive wmode : Set := WAll | WOn (k : nat) | WNone.
-Inductive mode : Set := MAny | MG (nc : bool) (w : wmode).
-Definition writes (md : mode) (cid : nat) : Prop :=
-  match md with MAny | MG _ WAll => True | MG _ (WOn k) => k = cid | MG _ WNone => False end.
+   connection's node name; node names are written (name_fn) only as allowed by w (WAll: any name
+   anywhere, WOn k h: the name h on connection k, WNone: nowhere); if nc = true, in addition nothing
+   is read from a connection that is still CONNECTING.  MN: only the CONNECTING clause. *)
+Inductive wmode : Set := WAll | WOn (k : nat) (h : string) | WNone.
+Inductive mode : Set := MAny | MN | MG (nc : bool) (w : wmode).
+Definition writes (md : mode) (cid : nat) (host : string) : Prop :=
+  match md with MAny | MN | MG _ WAll => True | MG _ (WOn k h) => k = cid /\ h = host | MG _ WNone => False end.
 Definition guarded (md : mode) : Prop :=
-  match md with MG _ _ => True | MAny => False end.
+  match md with MG _ _ => True | _ => False end.
 Definition noconn (md : mode) : Prop :=
-  match md with MG true _ => True | _ => False end.
-Lemma noconn_guarded md : noconn md -> guarded md.
-Proof. destruct md as [|[|] w]; cbn; auto. Qed.
+  match md with MG true _ | MN => True | _ => False end.
 
 (* the states in which a connection has been through a capabilities exchange *)
 Definition est (s : cstate) : Prop :=
@@ -235,13 +242,17 @@ Definition fresh_in (n : node) (c : conn) : Prop :=
   (c_host c <> ""%string -> forall p, get_peer n (c_host c) = Some p -> p_conn p <> None).
 (* what is known of connection c when its capabilities exchange has just succeeded *)
 Definition fresh_ce (md : mode) (n : node) (c : conn) : Prop :=
+  (id_ok c (c_host c) \/ List.In (c_host c) (List.map p_name (n_peers n))) /\
   (guarded md -> id_ok c (c_host c)) /\
   (c_recv c = true -> c_node_name c <> ""%string \/ List.In (c_node_name c) (List.map p_name (n_peers n))) /\
   (guarded md -> c_recv c = true -> fresh_in n c).
-(* a legal change of the state of connection c to s' *)
+(* a legal change of the state of connection c to s': never back to CONNECTING; to CONNECTED only from
+   CONNECTING (the premise "connection ids are distinct" is there for the decomposition lemmas, which do
+   not depend on the invariants) *)
 Definition st_ok (md : mode) (n : node) (c : conn) (s' : cstate) : Prop :=
   s' = c_state c \/
   (s' <> SConnecting /\
+   (s' = SConnected -> NoDup (List.map c_id (n_conns n)) -> c_state c = SConnecting) /\
    (est s' -> est (c_state c) \/ (c_state c = SConnecting /\ ~ noconn md) \/ fresh_ce md n c)).
 Definition passes (md : mode) (c : conn) : Prop :=
   est (c_state c) \/ (c_state c = SConnecting /\ ~ noconn md).
@@ -275,10 +286,12 @@ Inductive astep (md : mode) : node -> node -> Prop :=
 | A_soft n cid f : soft f -> astep md n (set_conns n (upd_conn (n_conns n) cid f))
 | A_state n cid f : isoft f -> (forall c, get_conn n cid = Some c -> st_ok md n c (c_state (f c))) ->
     astep md n (set_conns n (upd_conn (n_conns n) cid f))
-| A_name n cid host p : writes md cid -> get_peer n host = Some p ->
+| A_name n cid host p : writes md cid host -> get_peer n host = Some p ->
+    (forall c, get_conn n cid = Some c -> c_recv c = true) ->
     astep md n (set_conns n (upd_conn (n_conns n) cid (name_fn host)))
 | A_host n cid host au ac :
     (guarded md -> forall c, get_conn n cid = Some c -> id_ok c host) ->
+    (forall c, get_conn n cid = Some c -> c_state c = SConnected) ->
     astep md n (set_conns n (upd_conn (n_conns n) cid (fun c => set_cident c (c_node_name c) host (au c) (ac c))))
 | A_wait n aw pw ow sa :
     incl (List.map fst pw) (List.map fst (n_peer_waiting n)) ->
@@ -308,9 +321,10 @@ Proof. intros H1 H2. induction H2 as [|a b c H IH Hs]; [exact H1|]. eapply T_sno
 (* conversions between modes *)
 Lemma st_ok_any md n c s : st_ok md n c s -> st_ok MAny n c s.
 Proof.
-  intros [H0|[H1 H2]]; [now left|]. right. split; auto. intros He.
-  destruct (H2 He) as [A|[[A B]|[A [B C]]]];
-    [auto|right; left; split; [auto|intros []]|right; right; split; [intros []|split; [auto|intros []]]].
+  intros [H0|[H1 [H1' H2]]]; [now left|]. right. split; auto. split; auto. intros He.
+  destruct (H2 He) as [A|[[A B]|[A0 [A [B C]]]]];
+    [auto|right; left; split; [auto|intros []]|
+     right; right; split; [exact A0|split; [intros []|split; [auto|intros []]]]].
 Qed.
 Lemma astep_any md n n' : astep md n n' -> astep MAny n n'.
 Proof.
@@ -325,18 +339,18 @@ Proof. intros H. induction H; [constructor|]. eapply T_snoc; eauto. eapply astep
 
 (* a guarded derivation is a derivation in every mode with the same CONNECTING clause that allows at
    least the same name writes *)
-Lemma astep_w nc w w' n n' : (forall k, writes (MG nc w) k -> writes (MG nc w') k) ->
+Lemma astep_w nc w w' n n' : (forall k h, writes (MG nc w) k h -> writes (MG nc w') k h) ->
   astep (MG nc w) n n' -> astep (MG nc w') n n'.
 Proof.
   intros Hw H. inversion H; subst; try (econstructor; eauto; fail).
 Qed.
-Lemma trans_w nc w w' n n' : (forall k, writes (MG nc w) k -> writes (MG nc w') k) ->
+Lemma trans_w nc w w' n n' : (forall k h, writes (MG nc w) k h -> writes (MG nc w') k h) ->
   trans (MG nc w) n n' -> trans (MG nc w') n n'.
 Proof. intros Hw H. induction H; [constructor|]. eapply T_snoc; eauto. eapply astep_w; eauto. Qed.
 Lemma trans_all nc w n n' : trans (MG nc w) n n' -> trans (MG nc WAll) n n'.
-Proof. apply trans_w. intros k _. exact I. Qed.
+Proof. apply trans_w. intros k h _. exact I. Qed.
 Lemma trans_none nc w n n' : trans (MG nc WNone) n n' -> trans (MG nc w) n n'.
-Proof. apply trans_w. intros k []. Qed.
+Proof. apply trans_w. intros k h []. Qed.
 
 (* ---------------------------------------------------------------------------------------- *)
 (* 2. every model function is a composition of atomic transitions                            *)
@@ -348,17 +362,18 @@ Ltac soft_tac :=
   let c := fresh "c" in
   intro c; repeat (match goal with |- context [if ?b then _ else _] => destruct b end); cbn; auto.
 Ltac t_soft := eapply t_a; [apply A_soft; soft_tac|].
-Lemma st_ok_triv md n c s : s <> SConnecting -> ~ est s -> st_ok md n c s.
-Proof. intros H1 H2. right. split; auto. tauto. Qed.
-(* a state change to a state that is neither CONNECTING nor established *)
+Lemma st_ok_triv md n c s : s <> SConnecting -> s <> SConnected -> ~ est s -> st_ok md n c s.
+Proof. intros H1 H2 H3. right. split; auto. split; [intros E; congruence|tauto]. Qed.
+(* a state change to a state that is neither CONNECTING, CONNECTED nor established *)
 Ltac t_state_triv :=
-  eapply t_a; [apply A_state; [soft_tac|intros ? _; apply st_ok_triv; [discriminate|cbn; tauto]]|].
+  eapply t_a; [apply A_state; [soft_tac|intros ? _; apply st_ok_triv; [discriminate|discriminate|cbn; tauto]]|].
 (* a state change among the established states, or none *)
 Ltac t_state_cond :=
   eapply t_a; [apply A_state; [soft_tac|
     let c := fresh "c" in let Es := fresh "Es" in
     intros c _; unfold st_ok; destruct (c_state c) eqn:Es; cbn; rewrite ?Es; cbn;
-    try (left; reflexivity); right; (split; [discriminate|intros _; left; exact I])]|].
+    try (left; reflexivity); right;
+    (split; [discriminate|split; [let E := fresh "E" in intro E; discriminate E|intros _; left; exact I]])]|].
 Ltac dpair X :=
   let a := fresh "nn" in let b := fresh "oo" in let E := fresh "E" in
   destruct X as [a b] eqn:E; apply (f_equal fst) in E; cbn [fst] in E; subst a.
@@ -430,7 +445,7 @@ Proof.
   intros Hp H. unfold recv_dpr. apply send_message_t.
   match goal with |- trans _ _ (match get_conn ?N cid with _ => _ end) => assert (H1 : trans md n0 N) end.
   { eapply t_a; [apply A_state; [soft_tac|]|exact H]. intros c Hc. right. split; [discriminate|].
-    intros _. destruct (Hp c Hc); auto. }
+    split; [intros E; discriminate E|]. intros _. destruct (Hp c Hc); auto. }
   clear Hp.
   destruct (get_conn _ cid) as [c|]; auto. destruct (find_conn_peer _ c) as [p|]; auto.
   eapply t_a; [apply A_peer_soft|exact H1]. intros q; cbn. repeat split; auto. right; discriminate.
@@ -450,7 +465,12 @@ Proof.
   destruct (m_drealm m); try now apply send_message_t.
   destruct (route_lookup n a); try now apply send_message_t.
   destruct (List.find _ l) as [[[i|] x]|]; try now apply send_message_t.
-  cbn [fst]. eapply t_a; [eapply A_pw_add; eauto|exact H].
+  cbv zeta.
+  match goal with |- context [send_message ?N cid _] => assert (H1 : trans md n0 N) end.
+  { eapply t_a; [eapply A_pw_add; eauto|exact H]. }
+  destruct (handler_raises m); cbn [fst]; auto.
+  match goal with |- context [send_message ?N ?C ?M] => dpair (send_message N C M) end. cbn [fst].
+  now apply send_message_t.
 Qed.
 
 Lemma recv_app_answer_t n0 n m : trans md n0 n -> trans md n0 (fst (recv_app_answer n m)).
@@ -492,7 +512,7 @@ Proof.
   intros He H. unfold send_dpr. dpair (own_request n cid DP). apply send_message_t.
   eapply t_a; [apply A_state; [soft_tac|]|now apply own_request_t].
   intros c' Hc'. destruct (own_request_conn _ _ _ _ Hc') as [c [Hc Es]]. right. split; [discriminate|].
-  intros _. left. rewrite Es. auto.
+  split; [intros E; discriminate E|]. intros _. left. rewrite Es. auto.
 Qed.
 
 Lemma check_timers_t n0 n cid : trans md n0 n -> trans md n0 (fst (check_timers n cid)).
@@ -510,6 +530,17 @@ Proof.
   apply IH. now apply check_timers_t.
 Qed.
 
+(* the connection just registered by _connect_to_peer is CONNECTING *)
+Lemma dial_conn_new n name h c : NoDup (List.map c_id (n_conns (dial_conn n name h))) ->
+  get_conn (dial_conn n name h) (n_next_cid n) = Some c -> c_state c = SConnecting.
+Proof.
+  unfold dial_conn, get_conn. cbn [n_conns set_peers set_tables set_misc set_conns]. intros Hnd Hc.
+  set (x := new_conn (n_next_cid n) false SConnecting name (n_now n) h) in *.
+  assert (Hin : List.In x (n_conns n ++ [x])) by (apply in_or_app; right; left; reflexivity).
+  pose proof (find_conn_in _ x Hnd Hin) as F. change (c_id x) with (n_next_cid n) in F.
+  rewrite F in Hc. inversion Hc. reflexivity.
+Qed.
+
 Lemma connect_to_peer_t n0 n name h res : trans md n0 n -> trans md n0 (fst (connect_to_peer n name h res)).
 Proof.
   intros H. unfold connect_to_peer. destruct (get_peer n name) as [p|] eqn:Ep; auto.
@@ -518,7 +549,9 @@ Proof.
   unfold dial_conn in H1. cbv zeta.
   destruct res.
   - match goal with |- context [send_cer ?N ?C] => dpair (send_cer N C) end. cbn [fst].
-    apply send_cer_t. t_state_triv. exact H1.
+    apply send_cer_t. eapply t_a; [apply A_state; [soft_tac|]|exact H1].
+    intros c Hc. right. split; [discriminate|]. split; [|cbn; tauto].
+    intros _ Hnd. exact (dial_conn_new n name h c Hnd Hc).
   - match goal with |- context [close_conn ?N ?C ?R] => dpair (close_conn N C R) end. cbn [fst].
     apply close_conn_t. exact H1.
   - cbn [fst]. exact H1.
@@ -574,12 +607,16 @@ Proof. intros H. unfold settle'. dtriple (settle n ds). cbn [fst]. now apply set
 End Prims.
 
 (* ---- the capabilities-exchange handlers: the only writers of identities ---- *)
-Definition cer_pre (md : mode) (n : node) (cid : nat) (host : string) : Prop :=
-  writes md cid /\
-  (guarded md -> forall c, get_conn n cid = Some c -> c_node_name c = host \/ c_node_name c = ""%string).
+(* what a capabilities-exchange request with Origin-Host `host` must satisfy when it is read from
+   connection c = cid while c awaits it (CONNECTED, inbound; in every other case receive_cer or the gate
+   ignores it): under the identity guard the node name of c is empty or `host` *)
+Definition cer_pre (md : mode) (cid : nat) (c : conn) (host : string) : Prop :=
+  writes md cid host /\
+  (guarded md -> c_node_name c = host \/ c_node_name c = ""%string).
 Definition msg_pre (md : mode) (n : node) (cid : nat) (m : msg) : Prop :=
   (noconn md -> forall c, get_conn n cid = Some c -> c_state c <> SConnecting) /\
-  (m_cmd m = CE -> m_req m = true -> forall host, m_origin m = Present host -> cer_pre md n cid host).
+  (m_cmd m = CE -> m_req m = true -> forall c host, get_conn n cid = Some c -> c_state c = SConnected ->
+     c_recv c = true -> m_origin m = Present host -> cer_pre md cid c host).
 
 Lemma match3 {T} (P : T -> Prop) (a b : list Z) (c : bool) (X Y : T) :
   P X -> P Y -> P (match a, b, c with [], [], false => X | _, _, _ => Y end).
@@ -735,9 +772,10 @@ Lemma cer_tail_t s0 n cid host m rivals pr :
   (forall c, get_conn n cid = Some c -> c_recv c = true ->
      c_node_name c <> ""%string \/ List.In (c_node_name c) (List.map p_name (n_peers n))) ->
   (forall c', List.In c' (n_conns n) -> c_id c' <> cid -> c_node_name c' = host -> List.In (c_id c') rivals) ->
+  (forall c, get_conn n cid = Some c -> c_state c = SConnected) ->
   trans md s0 n -> trans md s0 (fst (cer_tail n rivals cid host m)).
 Proof.
-  intros Ep Hnm Hkn Hriv H. unfold cer_tail.
+  intros Ep Hnm Hkn Hriv Hsc H. unfold cer_tail.
   destruct (close_all n rivals R_CLEAN) as [n1 oel] eqn:Eca.
   assert (En1 : n1 = fst (close_all n rivals R_CLEAN)) by now rewrite Eca.
   assert (H1 : trans md s0 n1) by (rewrite En1; now apply close_all_t).
@@ -758,7 +796,8 @@ Proof.
     assert (H2 : trans md s0 (set_conns n1 (upd_conn (n_conns n1) cid hf))).
     { eapply t_a; [|exact H1].
       apply (A_host md n1 cid host (fun _ => inter_z (node_auth n1) (m_auth m)) (fun _ => inter_z (node_acct n1) (m_acct m))).
-      intros G c Ec. left. apply Hnm; auto. }
+      - intros G c Ec. left. apply Hnm; auto.
+      - intros c Ec. apply Hsc; auto. }
     apply flag_ready_t; [|apply assign_peer_conn_t; exact H2].
     intros c''. unfold get_conn at 1. rewrite assign_conns.
     change (get_conn (set_conns n1 (upd_conn (n_conns n1) cid hf)) cid = Some c'' ->
@@ -766,7 +805,10 @@ Proof.
     intros Ec''. pose proof Ec'' as Ec2. rewrite get_conn_upd in Ec2 by exact Hk.
     destruct (get_conn n1 cid) as [x|] eqn:Ex; cbn [option_map] in Ec2; [|discriminate].
     inversion Ec2; subst c''. clear Ec2. pose proof (Hget x eq_refl) as Exn.
-    right. split; [discriminate|]. intros _. right. right. split; [|split].
+    right. split; [discriminate|]. split; [intros E; discriminate E|]. intros _. right. right.
+    split; [|split; [|split]].
+    + right. rewrite assign_names. cbn [n_peers set_conns]. rewrite Hnames. subst hf. cbn.
+      destruct (get_peer_some _ _ _ Ep) as [Hin E1]. rewrite <- E1. now apply in_map.
     + intros G. left. subst hf. cbn. now apply Hnm.
     + intros Hr. rewrite assign_names. cbn [n_peers set_conns]. rewrite Hnames. subst hf. cbn. apply Hkn; auto.
     + intros G Hr. split.
@@ -781,31 +823,35 @@ Proof.
 Qed.
 
 Lemma recv_cer_t n0 n cid m :
-  (forall host, m_origin m = Present host -> cer_pre md n cid host) ->
+  (forall c host, get_conn n cid = Some c -> c_state c = SConnected -> m_origin m = Present host ->
+     c_recv c = true /\ cer_pre md cid c host) ->
   trans md n0 n -> trans md n0 (fst (recv_cer n cid m)).
 Proof.
-  intros Hpre H. unfold recv_cer. destruct (m_origin m) as [| |host] eqn:Eo; cbn [pres_get]; auto.
-  destruct (Hpre host eq_refl) as [Hq Hg].
+  intros Hpre H. unfold recv_cer. destruct (get_conn n cid) as [c0|] eqn:Ec0; auto.
+  destruct (cstate_eqb (c_state c0) SConnected) eqn:Es; cbn [negb]; auto.
+  assert (Es' : c_state c0 = SConnected) by (destruct (c_state c0); try discriminate; reflexivity).
+  destruct (m_origin m) as [| |host] eqn:Eo; cbn [pres_get]; auto.
+  destruct (Hpre c0 host eq_refl Es' eq_refl) as [Hr [Hq Hg]].
   destruct (get_peer n host) as [p|] eqn:Ep.
   - assert (H1 : trans md n0 (set_conns n (upd_conn (n_conns n) cid (name_fn host)))).
-    { eapply t_a; [eapply A_name; eauto|exact H]. }
+    { eapply t_a; [eapply A_name; eauto|exact H]. intros c E. rewrite Ec0 in E. inversion E; subst c. exact Hr. }
     unfold name_fn in H1. cbv zeta.
     match goal with |- context [election_rivals ?N cid host] => set (nn := N) in * end.
+    assert (Egn : get_conn nn cid = Some (name_fn host c0)).
+    { subst nn. fold (name_fn host). rewrite get_conn_upd by apply keeps_id_name_fn. now rewrite Ec0. }
     assert (Htail : trans md n0 (fst (cer_tail nn (election_rivals nn cid host) cid host m))).
     { apply (cer_tail_t n0 nn cid host m _ p); auto.
-      - intros G c'. subst nn. fold (name_fn host). rewrite get_conn_upd by apply keeps_id_name_fn.
-        destruct (get_conn n cid) as [c|] eqn:Ec; cbn [option_map]; [|discriminate].
-        intros E; inversion E. unfold name_fn. destruct (Hg G c eq_refl) as [D|D].
-        + destruct (String.eqb (c_node_name c) ""); cbn; auto.
+      - intros G c'. rewrite Egn. intros E; inversion E. unfold name_fn. destruct (Hg G) as [D|D].
+        + destruct (String.eqb (c_node_name c0) ""); cbn; auto.
         + rewrite D. cbn. auto.
-      - intros c'. subst nn. fold (name_fn host). rewrite get_conn_upd by apply keeps_id_name_fn.
-        destruct (get_conn n cid) as [c|] eqn:Ec; cbn [option_map]; [|discriminate].
-        intros E; inversion E. intros _. cbn [n_peers set_conns]. unfold name_fn.
-        destruct (String.eqb (c_node_name c) "") eqn:En; cbn.
+      - intros c'. rewrite Egn. intros E; inversion E. intros _. subst nn. cbn [n_peers set_conns]. unfold name_fn.
+        destruct (String.eqb (c_node_name c0) "") eqn:En; cbn.
         + right. destruct (get_peer_some _ _ _ Ep) as [Hin E1]. rewrite <- E1. now apply in_map.
         + left. now apply String.eqb_neq.
       - intros c' Hc' Hid Hn. unfold election_rivals. apply in_map. apply filter_In. split; auto.
-        apply andb_true_iff. split; [now apply negb_true_iff, Nat.eqb_neq|now apply String.eqb_eq]. }
+        apply andb_true_iff. split; [now apply negb_true_iff, Nat.eqb_neq|now apply String.eqb_eq].
+      - intros c'. rewrite Egn. intros E; inversion E. unfold name_fn.
+        destruct (String.eqb (c_node_name c0) ""); cbn; exact Es'. }
     unfold cer_tail in Htail.
     destruct (election_rivals nn cid host) as [|k ks]; [exact Htail|].
     destruct (String.ltb host (g_host (n_cfg nn))); [exact Htail|].
@@ -834,13 +880,17 @@ Proof.
   assert (H2 : trans md n0 (set_conns n (upd_conn (n_conns n) cid hf))).
   { eapply t_a; [|exact H].
     apply (A_host md n cid host (fun _ => inter_z (node_auth n) (m_auth m)) (fun _ => inter_z (node_acct n) (m_acct m))).
-    intros G c Ec'. rewrite Ec in Ec'. inversion Ec'; subst c. exact Hok. }
+    - intros G c Ec'. rewrite Ec in Ec'. inversion Ec'; subst c. exact Hok.
+    - intros c Ec'. rewrite Ec in Ec'. inversion Ec'; subst c.
+      destruct (c_state c0); try discriminate; reflexivity. }
   apply flag_ready_t; [|apply assign_peer_conn_t; exact H2].
   intros c''. unfold get_conn at 1. rewrite assign_conns.
   change (get_conn (set_conns n (upd_conn (n_conns n) cid hf)) cid = Some c'' ->
           st_ok md (assign_peer_conn (set_conns n (upd_conn (n_conns n) cid hf)) cid) c'' SReady).
   rewrite get_conn_upd by exact Hk. rewrite Ec. cbn [option_map]. intros E; inversion E; subst c''.
-  right. split; [discriminate|]. intros _. right. right. split; [|split].
+  right. split; [discriminate|]. split; [intros E'; discriminate E'|]. intros _. right. right.
+  split; [|split; [|split]].
+  - left. subst hf. exact Hok.
   - intros _. subst hf. exact Hok.
   - subst hf. cbn. congruence.
   - subst hf. cbn. congruence.
@@ -863,10 +913,16 @@ Proof.
   clearbody n1.
   destruct (if m_req m && g_validate (n_cfg n1) then m_missing m else []); [|now apply send_message_t].
   match goal with |- context [if ?b then _ else _] => destruct b end; [now apply send_message_t|].
-  unfold cer_pre in Hpre. rewrite <- Hc in Hpre.
+  rewrite <- Hc in Hpre.
   destruct (m_req m) eqn:Er, (m_cmd m) eqn:Em.
   - destruct (m_origin m) eqn:Eo; try now apply send_message_t.
-    apply recv_cer_t; auto. rewrite Eo. intros host E. apply (Hpre eq_refl eq_refl host E).
+    apply recv_cer_t; auto. rewrite Eo. intros c host Ec Es E.
+    assert (Hrc : c_recv c = true).
+    { destruct (Hcase c Ec) as [[A|[A _]]|[_ [_ A]]].
+      - rewrite Es in A. destruct A.
+      - rewrite Es in A. discriminate.
+      - destruct (c_recv c); [reflexivity|discriminate]. }
+    split; [exact Hrc|]. apply (Hpre eq_refl eq_refl c host); auto.
   - now apply recv_dwr_t.
   - apply recv_dpr_t; auto. intros c Ec. destruct (Hcase c Ec) as [A|[_ [A _]]]; [auto|discriminate].
   - apply recv_app_request_t; auto. intros c Ec. destruct (Hcase c Ec) as [A|[_ [A _]]]; [auto|discriminate].
@@ -1013,12 +1069,15 @@ Proof.
     match goal with |- context [settle' ?N ?D] => dpair (settle' N D) end. cbn [fst].
     now apply settle'_t.
   - (* EConnDone *)
-    destruct (get_conn n cid) as [c|]; auto. destruct (cstate_eqb (c_state c) SConnecting); auto.
+    destruct (get_conn n cid) as [c|] eqn:Ec; auto. destruct (cstate_eqb (c_state c) SConnecting) eqn:Esc; auto.
     destruct ok.
     + cbv zeta.
       match goal with |- context [send_cer ?N cid] => assert (H1 : trans md n0 N); [|dpair (send_cer N cid)] end.
       { match goal with |- trans _ _ (match find_conn_peer ?N c with _ => _ end) =>
-          assert (H2 : trans md n0 N) by (t_state_triv; exact H) end.
+          assert (H2 : trans md n0 N) end.
+        { eapply t_a; [apply A_state; [soft_tac|]|exact H].
+          intros c' Ec'. rewrite Ec in Ec'. inversion Ec'; subst c'. right. split; [discriminate|].
+          split; [|cbn; tauto]. intros _ _. destruct (c_state c); try discriminate; reflexivity. }
         destruct (find_conn_peer _ c); auto.
         eapply t_a; [apply A_peer_soft|exact H2]. intros q; cbn. repeat split; auto. }
       match goal with |- context [io_iteration ?N ?D] => dtriple (io_iteration N D) end.
@@ -1115,7 +1174,7 @@ Lemma ev_pre_any n ds e : ev_pre MAny n ds e.
 Proof.
   destruct e; cbn; auto. generalize (upd_last_read (fst (fst (io_iteration n ds))) cid). intros n1.
   revert n1. induction ms as [|m r IH]; intros n1; cbn; auto. split; auto.
-  unfold msg_pre, cer_pre. split; [intros []|]. intros _ _ host _. split; cbn; tauto.
+  unfold msg_pre, cer_pre. split; [intros []|]. intros _ _ c host _ _ _ _. split; cbn; tauto.
 Qed.
 
 Lemma run_t md evs : forall n0 n, evs_pre md n evs -> trans md n0 n -> trans md n0 (fst (run n evs)).
@@ -1249,6 +1308,9 @@ Proof.
   - intros c' Hin. apply in_upd_conn in Hin. destruct Hin as [Hin|[c [Hin [E _]]]]; auto.
     subst c'. rewrite Hf. auto.
 Qed.
+
+Lemma get_conn_in n c : P_ids n -> List.In c (n_conns n) -> get_conn n (c_id c) = Some c.
+Proof. intros [H _] Hin. unfold get_conn. now apply find_conn_in. Qed.
 
 Lemma P_ids_new n c : c_id c = n_next_cid n -> P_ids n ->
   NoDup (List.map c_id (n_conns n ++ [c])) /\ (forall x, List.In x (n_conns n ++ [c]) -> c_id x < S (n_next_cid n)).
@@ -1561,15 +1623,16 @@ Proof.
   exists p. rewrite E1, E3; eauto.
 Qed.
 
-Lemma astep_own md n n' : astep md n n' -> P_ids n -> P_names n -> P_ne n -> P_own n -> P_own n'.
+Lemma astep_own md n n' : astep md n n' -> P_ids n -> P_names n -> P_own n -> P_own n'.
 Proof.
-  intros H Hi Hn Hne Ho. destruct H; try exact Ho.
+  intros H Hi Hn Ho. destruct H; try exact Ho.
   - apply P_own_upd; auto. intros c. destruct (H c) as [A [B [C D]]]. auto.
   - apply P_own_upd; auto. intros c. destruct (H c) as [A [B [C D]]]. auto.
-  - apply P_own_upd; auto. intros c. unfold name_fn.
-    destruct (String.eqb (c_node_name c) "") eqn:E; cbn; auto.
-    apply String.eqb_eq in E. repeat split; auto. intros _ [q [Hq Eq]]. exfalso. apply Hne.
-    rewrite E in Eq. rewrite <- Eq. now apply in_map.
+  - (* node names are written on inbound connections only *)
+    intros c' Hin Hr. cbn in Hin |- *. apply in_upd_conn in Hin.
+    destruct Hin as [Hin|[c [Hin [E Eid]]]]; [now apply Ho|]. subst c' cid. exfalso.
+    pose proof (H1 c (get_conn_in n c Hi Hin)) as R.
+    unfold name_fn in Hr. destruct (String.eqb (c_node_name c) "") in Hr; cbn in Hr; congruence.
   - apply P_own_upd; auto.
   - (* peer_soft *)
     intros c Hin Hr. cbn in Hin |- *. destruct (Ho c Hin Hr) as [p [Hp [En Ec]]].
@@ -1605,37 +1668,38 @@ Proof.
       eexists; split; [exact Hi'|]. cbn. auto.
 Qed.
 
-Definition WO (n : node) : Prop := W n /\ P_ne n /\ P_own n.
+Definition WO (n : node) : Prop := W n /\ P_own n.
 
 Lemma astep_WO md n n' : astep md n n' -> WO n -> WO n'.
 Proof.
-  intros H [HW [Hne Ho]]. split; [eapply astep_W; eauto|]. split; [eapply astep_ne; eauto|].
+  intros H [HW Ho]. split; [eapply astep_W; eauto|].
   destruct HW as [Hi [Hn _]]. eapply astep_own; eauto.
 Qed.
 
-Lemma WO_init n : wf_init n -> P_ne n -> WO n.
+Lemma WO_init n : wf_init n -> WO n.
 Proof.
-  intros Hw Hne. split; [now apply W_init|]. split; auto. destruct Hw as [H1 _].
+  intros Hw. split; [now apply W_init|]. destruct Hw as [H1 _].
   intros c Hin. rewrite H1 in Hin. destruct Hin.
 Qed.
 
-Lemma reach_WO n0 n : reach n0 n -> P_ne n0 -> WO n.
+Lemma reach_WO n0 n : reach n0 n -> WO n.
 Proof.
-  intros H Hne. apply reach_trans in H. destruct H as [Hw H].
+  intros H. apply reach_trans in H. destruct H as [Hw H].
   eapply (trans_inv MAny WO); eauto. apply astep_WO. now apply WO_init.
 Qed.
 
-(* ---- invariant 4 ---- *)
-Theorem C12_outbound_owned : forall n0 n, reach n0 n -> ~ List.In ""%string (List.map p_name (n_peers n0)) ->
+(* ---- invariant 4 (unconditional since receive_cer acts only on a connection that awaits the CER:
+   the node name of an outbound connection is never rewritten) ---- *)
+Theorem C12_outbound_owned : forall n0 n, reach n0 n ->
   forall c, List.In c (n_conns n) -> c_recv c = false ->
   exists p, List.In p (n_peers n) /\ p_name p = c_node_name c /\ p_conn p = Some (c_id c).
-Proof. intros n0 n H Hne. destruct (reach_WO _ _ H Hne) as [_ [_ Ho]]. exact Ho. Qed.
+Proof. intros n0 n H. destruct (reach_WO _ _ H) as [_ Ho]. exact Ho. Qed.
 
-Theorem C12_single_outbound : forall n0 n, reach n0 n -> ~ List.In ""%string (List.map p_name (n_peers n0)) ->
+Theorem C12_single_outbound : forall n0 n, reach n0 n ->
   forall c1 c2, List.In c1 (n_conns n) -> List.In c2 (n_conns n) ->
   c_recv c1 = false -> c_recv c2 = false -> c_node_name c1 = c_node_name c2 -> c1 = c2.
 Proof.
-  intros n0 n H Hne c1 c2 H1 H2 R1 R2 E. destruct (reach_WO _ _ H Hne) as [[[Hnd _] [Hn _]] [_ Ho]].
+  intros n0 n H c1 c2 H1 H2 R1 R2 E. destruct (reach_WO _ _ H) as [[[Hnd _] [Hn _]] Ho].
   destruct (Ho c1 H1 R1) as [p1 [Hp1 [N1 C1]]]. destruct (Ho c2 H2 R2) as [p2 [Hp2 [N2 C2]]].
   assert (p1 = p2) by (eapply peer_unique; eauto; congruence). subst p2.
   eapply conn_unique; eauto. congruence.
@@ -1652,9 +1716,6 @@ Definition K0 (n : node) : Prop :=
 Definition K1 (n : node) : Prop :=
   forall c, List.In c (n_conns n) -> c_recv c = true -> est (c_state c) ->
   List.In (c_node_name c) (List.map p_name (n_peers n)).
-
-Lemma get_conn_in n c : P_ids n -> List.In c (n_conns n) -> get_conn n (c_id c) = Some c.
-Proof. intros [H _] Hin. unfold get_conn. now apply find_conn_in. Qed.
 
 Lemma astep_K2 md n n' : astep md n n' -> P_ids n -> K2 n -> K2 n'.
 Proof.
@@ -1703,9 +1764,9 @@ Proof.
     subst c'. destruct (H c) as [_ [B [C [_ D]]]]. rewrite C, D. rewrite B in Hr. auto.
   - intros c' Hin Hr He. cbn in Hin. apply in_upd_conn in Hin. destruct Hin as [Hin|[c [Hin [E Eid]]]]; auto.
     subst c' cid. destruct (H c) as [_ [B [C _]]]. rewrite C. rewrite B in Hr.
-    destruct (H0 c (get_conn_in n c Hi Hin)) as [A|[_ A]].
+    destruct (H0 c (get_conn_in n c Hi Hin)) as [A|[_ [_ A]]].
     + rewrite A in He. auto.
-    + destruct (A He) as [A1|[[A1 _]|[_ [A1 _]]]]; auto.
+    + destruct (A He) as [A1|[[A1 _]|[_ [_ [A1 _]]]]]; auto.
       * exfalso. eapply Hk2; eauto.
       * destruct (A1 Hr) as [A2|A2]; auto. destruct (Hk0 c Hin Hr); auto. congruence.
   - intros c' Hin Hr He. cbn in Hin. apply in_upd_conn in Hin. destruct Hin as [Hin|[c [Hin [E _]]]]; auto.
@@ -1765,9 +1826,13 @@ Definition G_live (n : node) : Prop :=
 Definition G_conv (n : node) : Prop :=
   forall c p, List.In c (n_conns n) -> est (c_state c) -> List.In p (n_peers n) -> p_name p = c_node_name c ->
   p_conn p = Some (c_id c).
+(* the keys of _peer_waiting are host identities of connections that are past CONNECTED *)
+Definition live_st (s : cstate) : Prop := s <> SConnecting /\ s <> SConnected.
+Lemma est_live s : est s -> live_st s.
+Proof. destruct s; cbn; intros []; split; discriminate. Qed.
 Definition G_pw (n : node) : Prop :=
   forall h, List.In h (List.map fst (n_peer_waiting n)) ->
-  h <> ""%string /\ exists c, List.In c (n_conns n) /\ c_host c = h.
+  h <> ""%string /\ exists c, List.In c (n_conns n) /\ c_host c = h /\ live_st (c_state c).
 (* an established connection has a host identity *)
 Definition KH (n : node) : Prop :=
   forall c, List.In c (n_conns n) -> est (c_state c) -> c_host c <> ""%string.
@@ -1890,10 +1955,10 @@ Proof.
     apply G_conv_upd; auto. intros c _ _. destruct (H c) as [A [_ [B [_ D]]]]. rewrite D. auto.
   - (* state *)
     apply G_conv_upd; auto. intros c Hin Eid. destruct (H c) as [A [_ [B _]]]. split; auto. split; auto.
-    intros He. subst cid. destruct (H0 c (get_conn_in n c Hi Hin)) as [S|[_ S]]; [rewrite S in He; auto|].
+    intros He. subst cid. destruct (H0 c (get_conn_in n c Hi Hin)) as [S|[_ [_ S]]]; [rewrite S in He; auto|].
     assert (Er : c_recv c = true \/ c_recv c = false) by (destruct (c_recv c); auto).
     destruct Er as [Er|Er]; [|right; now apply own_conv].
-    destruct (S He) as [S1|[[S1 _]|[F1 [F2 F3]]]]; auto.
+    destruct (S He) as [S1|[[S1 _]|[_ [F1 [F2 F3]]]]]; auto.
     + exfalso. eapply Hk2; eauto.
     + right. intros p Hp En. destruct (F3 G Er) as [U V].
       assert (Eh : c_node_name c = c_host c).
@@ -1945,28 +2010,31 @@ Proof.
   - rewrite map_app. cbn. intros H. apply in_app_iff in H. destruct H as [H|[H|[]]]; auto.
 Qed.
 
-(* ---- with the CONNECTING clause: host identities of established connections, _peer_waiting ---- *)
-Lemma astep_KH md n n' : noconn md -> astep md n n' -> P_ids n -> P_ne n -> P_own n -> K1 n -> G_ident n -> KH n -> KH n'.
+(* ---- with the CONNECTING clause alone (no identity guard): host identities of established
+   connections, _peer_waiting.  A host identity is written only while the connection is CONNECTED, a
+   connection never returns to CONNECTED, and requests are filed only for established connections. ---- *)
+Lemma astep_KH md n n' : noconn md -> astep md n n' -> P_ids n -> P_ne n -> P_own n -> KH n -> KH n'.
 Proof.
-  intros NC H Hi Hne Ho Hk1 Hid Hk. pose proof (noconn_guarded _ NC) as G. destruct H; try exact Hk.
+  intros NC H Hi Hne Ho Hk. destruct H; try exact Hk.
   - intros c' Hin. cbn in Hin. apply in_upd_conn in Hin. destruct Hin as [Hin|[c [Hin [E _]]]]; auto.
     subst c'. destruct (H c) as [_ [_ [_ [C D]]]]. rewrite C, D. auto.
   - intros c' Hin He. cbn in Hin. apply in_upd_conn in Hin. destruct Hin as [Hin|[c [Hin [E Eid]]]]; auto.
     subst c' cid. destruct (H c) as [_ [B [C D]]]. rewrite D.
-    destruct (H0 c (get_conn_in n c Hi Hin)) as [A|[_ A]].
+    destruct (H0 c (get_conn_in n c Hi Hin)) as [A|[_ [_ A]]].
     + rewrite A in He. auto.
-    + destruct (A He) as [A1|[[_ A1]|[A1 [A2 _]]]].
+    + destruct (A He) as [A1|[[_ A1]|[A0 [_ [A2 _]]]]].
       * auto.
       * exfalso. apply A1. exact NC.
-      * rewrite <- (id_ok_eq n c _ Hne Ho Hin (A1 G)). intro E.
-        assert (Er : c_recv c = true \/ c_recv c = false) by (destruct (c_recv c); auto). destruct Er as [Er|Er].
-        -- destruct (A2 Er) as [A3|A3]; auto. apply Hne. now rewrite <- E.
-        -- eapply out_named; eauto.
+      * destruct A0 as [A0|A0].
+        -- rewrite <- (id_ok_eq n c _ Hne Ho Hin A0). intro E.
+           assert (Er : c_recv c = true \/ c_recv c = false) by (destruct (c_recv c); auto). destruct Er as [Er|Er].
+           ++ destruct (A2 Er) as [A3|A3]; auto. apply Hne. now rewrite <- E.
+           ++ eapply out_named; eauto.
+        -- intro E. apply Hne. now rewrite <- E.
   - intros c' Hin He. cbn in Hin. apply in_upd_conn in Hin. destruct Hin as [Hin|[c [Hin [E _]]]]; auto.
     subst c'. unfold name_fn in *. destruct (String.eqb (c_node_name c) ""); cbn in *; auto.
   - intros c' Hin He. cbn in Hin. apply in_upd_conn in Hin. destruct Hin as [Hin|[c [Hin [E Eid]]]]; auto.
-    subst c' cid. cbn in *. rewrite <- (id_ok_eq n c _ Hne Ho Hin (H G c (get_conn_in n c Hi Hin))).
-    eapply name_nonempty; eauto.
+    subst c' cid. cbn in He. rewrite (H0 c (get_conn_in n c Hi Hin)) in He. destruct He.
   - intros c' Hin. erewrite rc_conns in Hin by eauto. apply filter_In in Hin. apply Hk. tauto.
   - intros c' Hin He. unfold accept_conn in Hin. cbn in Hin. apply in_app_iff in Hin.
     destruct Hin as [Hin|[Hin|[]]]; auto. subst c'. destruct He.
@@ -1974,34 +2042,41 @@ Proof.
     destruct Hin as [Hin|[Hin|[]]]; auto. subst c'. destruct He.
 Qed.
 
-Lemma G_pw_upd n cid f : (forall c, c_host (f c) = c_host c) -> G_pw n -> G_pw (set_conns n (upd_conn (n_conns n) cid f)).
+Lemma G_pw_upd n cid f : (forall c, c_host (f c) = c_host c /\ c_state (f c) = c_state c) ->
+  G_pw n -> G_pw (set_conns n (upd_conn (n_conns n) cid f)).
 Proof.
-  intros Hf Hg h Hh. cbn in Hh |- *. destruct (Hg h Hh) as [A [c [Hin E]]]. split; auto.
+  intros Hf Hg h Hh. cbn in Hh |- *. destruct (Hg h Hh) as [A [c [Hin [E L]]]]. split; auto.
   destruct (upd_conn_image (n_conns n) cid f c Hin) as [Hi'|[_ Hi']]; [exists c; auto|].
-  exists (f c). rewrite Hf. auto.
+  exists (f c). destruct (Hf c) as [F1 F2]. rewrite F1, F2. auto.
 Qed.
 
-Lemma astep_pw md n n' : noconn md -> astep md n n' -> P_ids n -> P_ne n -> P_own n -> G_ident n -> KH n -> G_pw n -> G_pw n'.
+Lemma astep_pw md n n' : noconn md -> astep md n n' -> P_ids n -> KH n -> G_pw n -> G_pw n'.
 Proof.
-  intros NC H Hi Hne Ho Hid Hkh Hg. pose proof (noconn_guarded _ NC) as G. destruct H; try exact Hg.
-  - apply G_pw_upd; auto. intros c. apply H.
-  - apply G_pw_upd; auto. intros c. apply H.
+  intros NC H Hi Hkh Hg. destruct H; try exact Hg.
+  - apply G_pw_upd; auto. intros c. destruct (H c) as [_ [_ [_ [A B]]]]. auto.
+  - (* state: the connection does not return to CONNECTED *)
+    intros h Hh. cbn in Hh |- *. destruct (Hg h Hh) as [A [c [Hin [E L]]]]. split; auto.
+    destruct (upd_conn_image (n_conns n) cid f c Hin) as [Hi'|[Eid Hi']]; [exists c; auto|].
+    exists (f c). destruct (H c) as [_ [_ [_ D]]]. rewrite D. split; auto. split; auto.
+    subst cid. destruct (H0 c (get_conn_in n c Hi Hin)) as [S|[S1 [S2 _]]].
+    + rewrite S. exact L.
+    + split; auto. intro E2. destruct L as [L1 _]. apply L1. apply S2; auto. apply Hi.
   - apply G_pw_upd; auto. intros c. unfold name_fn. destruct (String.eqb _ _); auto.
-  - (* host *)
-    intros h Hh. cbn in Hh |- *. destruct (Hg h Hh) as [A [c [Hin E]]]. split; auto.
+  - (* host: written only on a CONNECTED connection *)
+    intros h Hh. cbn in Hh |- *. destruct (Hg h Hh) as [A [c [Hin [E L]]]]. split; auto.
     match goal with |- exists _, List.In _ (upd_conn _ _ ?F) /\ _ =>
-      destruct (upd_conn_image (n_conns n) cid F c Hin) as [Hi'|[Eid Hi']] end; [exists c; auto|].
-    destruct (Hid c Hin) as [B|B]; [congruence|]. eexists. split; [exact Hi'|]. cbn.
-    rewrite <- E, B. symmetry. eapply id_ok_eq; eauto. apply H; [exact G|]. subst cid. now apply get_conn_in.
+      destruct (upd_conn_image (n_conns n) cid F c Hin) as [Hi'|[Eid _]] end; [exists c; auto|].
+    exfalso. subst cid. destruct L as [_ L2]. apply L2. apply H0. now apply get_conn_in.
   - intros h Hh. cbn in Hh |- *. apply H in Hh. auto.
   - intros h Hh. cbn in Hh |- *. apply in_pw_add in Hh. destruct Hh as [Hh|Hh]; auto.
-    destruct (get_conn_some _ _ _ H) as [Hin _]. subst h. split; [|exists c; auto].
-    destruct H0 as [A|[_ A]]; [now apply Hkh|]. exfalso. apply A. exact NC.
+    destruct (get_conn_some _ _ _ H) as [Hin _]. subst h.
+    assert (He : est (c_state c)) by (destruct H0 as [A|[_ A]]; [exact A|exfalso; apply A; exact NC]).
+    split; [now apply Hkh|]. exists c. split; auto. split; auto. now apply est_live.
   - (* remove *)
     intros h Hh. erewrite rc_pw in Hh by eauto. erewrite rc_conns by eauto.
     apply in_map_iff in Hh. destruct Hh as [e [E Hh]]. apply filter_In in Hh. destruct Hh as [Hh Hne'].
     apply negb_true_iff, String.eqb_neq in Hne'.
-    destruct (Hg h) as [A [c0 [Hin E0]]]; [apply in_map_iff; eauto|]. split; auto.
+    destruct (Hg h) as [A [c0 [Hin [E0 L]]]]; [apply in_map_iff; eauto|]. split; auto.
     exists c0. split; auto. apply filter_In. split; auto. apply negb_true_iff, Nat.eqb_neq.
     intro D. destruct (get_conn_some _ _ _ H) as [Hin' Eid].
     assert (c0 = c) by (eapply conn_unique; eauto; [apply Hi|congruence]). subst c0. congruence.
@@ -2012,116 +2087,156 @@ Proof.
 Qed.
 
 (* the invariants under the identity guard ... *)
-Definition GC (n : node) : Prop := WO n /\ (K2 n /\ K0 n /\ K1 n) /\ G_ident n /\ G_live n /\ G_conv n.
-(* ... and with the CONNECTING clause *)
-Definition GI (n : node) : Prop := GC n /\ KH n /\ G_pw n.
+Definition GC (n : node) : Prop := WO n /\ P_ne n /\ (K2 n /\ K0 n /\ K1 n) /\ G_ident n /\ G_live n /\ G_conv n.
+(* ... and under the CONNECTING clause *)
+Definition NI (n : node) : Prop := WO n /\ P_ne n /\ K2 n /\ KH n /\ G_pw n.
 
 Lemma astep_GC md n n' : guarded md -> astep md n n' -> GC n -> GC n'.
 Proof.
-  intros G H [HW [[K2' [K0' K1']] [H1 [H2 H3]]]]. pose proof HW as [[Hi [Hn _]] [Hne Ho]].
-  split; [eapply astep_WO; eauto|].
+  intros G H [HW [Hne [[K2' [K0' K1']] [H1 [H2 H3]]]]]. pose proof HW as [[Hi [Hn _]] Ho].
+  split; [eapply astep_WO; eauto|]. split; [eapply astep_ne; eauto|].
   split; [split; [eapply astep_K2; eauto|split; [eapply astep_K0; eauto|eapply astep_K1; eauto]]|].
   split; [eapply astep_ident; eauto|].
   split; [eapply astep_live; eauto|eapply astep_conv; eauto].
 Qed.
 
-Lemma astep_GI md n n' : noconn md -> astep md n n' -> GI n -> GI n'.
+Lemma astep_NI md n n' : noconn md -> astep md n n' -> NI n -> NI n'.
 Proof.
-  intros NC H [HC [H3 H4]]. pose proof HC as [HW [[K2' [K0' K1']] [H1 [H2 _]]]].
-  pose proof HW as [[Hi [Hn _]] [Hne Ho]].
-  split; [eapply astep_GC; eauto; now apply noconn_guarded|].
+  intros NC H [HW [Hne [H2 [H3 H4]]]]. pose proof HW as [[Hi [Hn _]] Ho].
+  split; [eapply astep_WO; eauto|]. split; [eapply astep_ne; eauto|]. split; [eapply astep_K2; eauto|].
   split; [eapply astep_KH; eauto|eapply astep_pw; eauto].
 Qed.
 
 Lemma GC_init n : wf_init n -> P_ne n -> GC n.
 Proof.
-  intros Hw Hne. split; [now apply WO_init|]. destruct (WK_init n Hw) as [_ HK]. split; [exact HK|].
+  intros Hw Hne. split; [now apply WO_init|]. split; [exact Hne|].
+  destruct (WK_init n Hw) as [_ HK]. split; [exact HK|].
   destruct Hw as [H1 [_ [_ [H4 [_ [_ [_ [H8 _]]]]]]]].
   unfold G_ident, G_live, G_conv. rewrite H1. cbn. repeat split; try tauto.
   intros p cid Hp Hc. apply H8 in Hp. destruct Hp as [A _]. congruence.
 Qed.
 
-Lemma GI_init n : wf_init n -> P_ne n -> GI n.
+Lemma NI_init n : wf_init n -> P_ne n -> NI n.
 Proof.
-  intros Hw Hne. split; [now apply GC_init|].
-  destruct Hw as [H1 [_ [_ [H4 _]]]]. unfold KH, G_pw. rewrite H1, H4. cbn. tauto.
+  intros Hw Hne. split; [now apply WO_init|]. split; [exact Hne|].
+  destruct Hw as [H1 [_ [_ [H4 _]]]]. unfold K2, KH, G_pw. rewrite H1, H4. cbn. tauto.
 Qed.
 
 (* ---------------------------------------------------------------------------------------- *)
 (* 8. the guard on the environment's inputs                                                   *)
 (* ---------------------------------------------------------------------------------------- *)
-(* cer_guard (clauses i, ii):
-   (i)  a connection receives at most one capabilities-exchange REQUEST, ever (`seen` is the ghost set
-        of connection ids that already received one) -- a second CER on a connection is outside the
-        specification; the model accepts it and overwrites the host identity (C13_second_cer_refuted);
-   (ii) no capabilities-exchange request is read from an OUTBOUND connection (one the node dialled) --
-        the gate lets a CER through on an established outbound connection, and the handler files the
-        connection under the CER's Origin-Host (C13_outbound_cer_refuted).
-   ce_guard = cer_guard and
-   (iii) nothing is read from a connection whose connect() has not completed (state CONNECTING)
-        (C19_connecting_read_refuted).
-   Capabilities-exchange ANSWERS are unrestricted: the repaired receive_cea ignores them unless the
-   answer is awaited, and closes the connection if the Origin-Host is not the dialled peer.
-   The connection's direction is read off the run (c_recv at the time of the read); it is known to the
-   environment (ODial / accept). *)
+(* The repaired receive_cer ignores a capabilities-exchange request unless the connection still awaits
+   it (state CONNECTED), and the gate drops a CE request on an OUTBOUND connection in that state.  The
+   former clauses (i) "at most one CER per connection" and (ii) "no CER is read from an outbound
+   connection" are therefore gone.  What is left of (i):
+   (i')  [cer_guard] a CER that receive_cer PROCESSES -- it is dispatched while its connection is inbound
+         and CONNECTED -- carries the node name of the connection as Origin-Host, unless the connection has
+         no node name yet (`cer_ok`, evaluated in the state in which the reader thread dispatches the
+         frame).  A CONNECTED inbound connection has a node name exactly when an earlier CER on it named a
+         configured peer and was answered 5010 NO_COMMON_APPLICATION (the only outcome that leaves the
+         connection CONNECTED).  The model accepts a further CER with another Origin-Host on such a
+         connection, keeps the node name and files the connection under the new host identity
+         (C13_cer_origin_change_refuted).  Nothing is required of CERs that are ignored (read in any other
+         state, or from an outbound connection), of CERs without Origin-Host, or of answers.
+         A sufficient condition on the input alone is `cer_guard_syn` (cer_guard_syn_sufficient): the CERs
+         of one read from an inbound CONNECTED connection agree on the Origin-Host, and with the node
+         name the connection has at the time of the read if it has one.
+   (iii) [conn_guard] nothing is read from a connection whose connect() has not completed (state
+         CONNECTING at the time of the read) (C19_connecting_read_refuted, C06_connecting_read_refuted).
+   ce_guard = (i') and (iii). *)
 Definition is_cer (m : msg) : bool := cmd_eqb (m_cmd m) CE && m_req m.
-Definition cer_count (ms : list msg) : nat := List.length (List.filter is_cer ms).
 
-Definition ev_guard (nc : bool) (n : node) (seen : list nat) (e : event) : Prop :=
+Definition cer_ok (n : node) (cid : nat) (m : msg) : Prop :=
+  is_cer m = true -> forall c h, get_conn n cid = Some c -> c_recv c = true -> c_state c = SConnected ->
+  m_origin m = Present h -> c_node_name c = h \/ c_node_name c = ""%string.
+Fixpoint cers_ok (n : node) (cid : nat) (ms : list msg) : Prop :=
+  match ms with
+  | [] => True
+  | m :: r => cer_ok n cid m /\ cers_ok (fst (dispatch n cid m)) cid r
+  end.
+(* the state in which the reader thread starts on the frames of a read (see `step`) *)
+Definition read_state (n : node) (ds : dials) (cid : nat) : node :=
+  upd_last_read (fst (fst (io_iteration n ds))) cid.
+
+Definition ev_guard (id nc : bool) (n : node) (ds : dials) (e : event) : Prop :=
   match e with
   | ERecv cid ms =>
       forall c, get_conn n cid = Some c ->
         (if nc then c_state c <> SConnecting else True) /\
-        cer_count ms + (if mem_nat cid seen then 1 else 0) <= 1 /\
-        (c_recv c = false -> cer_count ms = 0)
+        (if id then cers_ok (read_state n ds cid) cid ms else True)
   | _ => True
   end.
-Definition ev_seen (e : event) : list nat :=
-  match e with ERecv cid ms => if List.existsb is_cer ms then [cid] else [] | _ => [] end.
 
-Fixpoint guard_from (nc : bool) (n : node) (seen : list nat) (evs : list (dials * event)) : Prop :=
+Fixpoint guard_from (id nc : bool) (n : node) (evs : list (dials * event)) : Prop :=
   match evs with
   | [] => True
-  | de :: r => ev_guard nc n seen (snd de) /\
-               guard_from nc (fst (step n (fst de) (snd de))) (ev_seen (snd de) ++ seen)%list r
+  | de :: r => ev_guard id nc n (fst de) (snd de) /\ guard_from id nc (fst (step n (fst de) (snd de))) r
   end.
-Definition cer_guard (n0 : node) (evs : list (dials * event)) : Prop := guard_from false n0 [] evs.
-Definition ce_guard (n0 : node) (evs : list (dials * event)) : Prop := guard_from true n0 [] evs.
+Definition cer_guard (n0 : node) (evs : list (dials * event)) : Prop := guard_from true false n0 evs.
+Definition conn_guard (n0 : node) (evs : list (dials * event)) : Prop := guard_from false true n0 evs.
+Definition ce_guard (n0 : node) (evs : list (dials * event)) : Prop := guard_from true true n0 evs.
+
+(* the sufficient condition on the input *)
+Fixpoint cers_agree (nm : string) (ms : list msg) : Prop :=
+  match ms with
+  | [] => True
+  | m :: r => if is_cer m then
+                match m_origin m with
+                | Present h => (nm = ""%string \/ h = nm) /\ cers_agree h r
+                | _ => cers_agree nm r
+                end
+              else cers_agree nm r
+  end.
+Definition ev_guard_syn (n : node) (e : event) : Prop :=
+  match e with
+  | ERecv cid ms =>
+      forall c, get_conn n cid = Some c -> c_recv c = true -> c_state c = SConnected ->
+                cers_agree (c_node_name c) ms
+  | _ => True
+  end.
+Fixpoint cer_guard_syn (n : node) (evs : list (dials * event)) : Prop :=
+  match evs with
+  | [] => True
+  | de :: r => ev_guard_syn n (snd de) /\ cer_guard_syn (fst (step n (fst de) (snd de))) r
+  end.
 
 Definition wf_init_g (n : node) : Prop := wf_init n /\ ~ List.In ""%string (List.map p_name (n_peers n)).
-(* reach_c: no peer is named "", clauses (i) and (ii);  reach_g: in addition clause (iii) *)
+(* no peer is named "" and: reach_c: clause (i');  reach_nc: clause (iii);  reach_g: both *)
 Definition reach_c (n0 n : node) : Prop :=
   exists evs : list (dials * event), wf_init_g n0 /\ cer_guard n0 evs /\ n = fst (run n0 evs).
+Definition reach_nc (n0 n : node) : Prop :=
+  exists evs : list (dials * event), wf_init_g n0 /\ conn_guard n0 evs /\ n = fst (run n0 evs).
 Definition reach_g (n0 n : node) : Prop :=
   exists evs : list (dials * event), wf_init_g n0 /\ ce_guard n0 evs /\ n = fst (run n0 evs).
 
-Lemma guard_from_weaken evs : forall n seen, guard_from true n seen evs -> guard_from false n seen evs.
+Lemma guard_from_weaken (id nc id' nc' : bool) evs :
+  (id' = true -> id = true) -> (nc' = true -> nc = true) ->
+  forall n, guard_from id nc n evs -> guard_from id' nc' n evs.
 Proof.
-  induction evs as [|de r IH]; intros n seen; cbn [guard_from]; auto. intros [H1 H2]. split; auto.
-  destruct (snd de); cbn in *; auto. intros c Hc. destruct (H1 c Hc) as [_ A]. auto.
+  intros Hi Hn. induction evs as [|de r IH]; intros n; cbn [guard_from]; auto. intros [H1 H2]. split; auto.
+  destruct (snd de); cbn [ev_guard] in *; auto. intros c Hc. destruct (H1 c Hc) as [A B]. split.
+  - destruct nc'; auto. rewrite (Hn eq_refl) in A. exact A.
+  - destruct id'; auto. rewrite (Hi eq_refl) in B. exact B.
 Qed.
 Lemma reach_g_reach_c n0 n : reach_g n0 n -> reach_c n0 n.
-Proof. intros [evs [Hw [Hg E]]]. exists evs. split; auto. split; auto. now apply guard_from_weaken. Qed.
+Proof.
+  intros [evs [Hw [Hg E]]]. exists evs. split; auto. split; auto.
+  revert Hg. apply guard_from_weaken; auto.
+Qed.
+Lemma reach_g_reach_nc n0 n : reach_g n0 n -> reach_nc n0 n.
+Proof.
+  intros [evs [Hw [Hg E]]]. exists evs. split; auto. split; auto.
+  revert Hg. apply guard_from_weaken; auto.
+Qed.
 Lemma reach_c_reach n0 n : reach_c n0 n -> reach n0 n.
+Proof. intros [evs [[Hw _] [_ E]]]. exists evs. auto. Qed.
+Lemma reach_nc_reach n0 n : reach_nc n0 n -> reach n0 n.
 Proof. intros [evs [[Hw _] [_ E]]]. exists evs. auto. Qed.
 Lemma reach_g_reach n0 n : reach_g n0 n -> reach n0 n.
 Proof. intros H. apply reach_c_reach. now apply reach_g_reach_c. Qed.
 
 Lemma is_cer_false m : is_cer m = false -> m_cmd m = CE -> m_req m = true -> False.
 Proof. unfold is_cer. intros H E R. rewrite E, R in H. discriminate. Qed.
-
-Lemma existsb_count ms : List.existsb is_cer ms = true -> 1 <= cer_count ms.
-Proof.
-  unfold cer_count. induction ms as [|m r IH]; cbn; [discriminate|]. destruct (is_cer m); cbn; [lia|auto].
-Qed.
-
-Lemma mem_nat_in x l : List.In x l -> mem_nat x l = true.
-Proof. intros H. unfold mem_nat. apply existsb_exists. exists x. split; auto. apply Nat.eqb_refl. Qed.
-
-(* a derivation that writes no node name keeps the direction and the node name of connection cid *)
-Definition keeps (cid : nat) (c : conn) (n : node) : Prop :=
-  cid < n_next_cid n /\
-  forall c', get_conn n cid = Some c' -> c_recv c' = c_recv c /\ c_node_name c' = c_node_name c.
 
 Lemma find_app_fresh l x cid : c_id x <> cid ->
   List.find (fun c => Nat.eqb (c_id c) cid) (l ++ [x]) = List.find (fun c => Nat.eqb (c_id c) cid) l.
@@ -2130,41 +2245,6 @@ Proof.
   - apply Nat.eqb_neq in H. now rewrite H.
   - destruct (Nat.eqb (c_id a) cid); auto.
 Qed.
-
-Lemma keeps_upd' cid c n k f :
-  (forall x, c_id (f x) = c_id x /\ c_recv (f x) = c_recv x /\ c_node_name (f x) = c_node_name x) ->
-  keeps cid c n -> keeps cid c (set_conns n (upd_conn (n_conns n) k f)).
-Proof.
-  intros Hf [H1 H2]. split; auto. intros c'. destruct (Nat.eq_dec k cid) as [D|D].
-  - subst k. rewrite get_conn_upd by (intro x; apply Hf). destruct (get_conn n cid) as [c0|]; cbn; [|discriminate].
-    intros E; inversion E; subst c'. destruct (Hf c0) as [_ [A B]]. rewrite A, B. auto.
-  - unfold get_conn. cbn. rewrite find_upd_conn_other; auto. intro x; apply Hf.
-Qed.
-Lemma keeps_upd cid c n k f : isoft f -> keeps cid c n -> keeps cid c (set_conns n (upd_conn (n_conns n) k f)).
-Proof. intros Hf. apply keeps_upd'. intros x. destruct (Hf x) as [A [B [C _]]]. auto. Qed.
-
-Lemma astep_keeps md cid c n n' : (forall k, ~ writes md k) -> astep md n n' -> keeps cid c n -> keeps cid c n'.
-Proof.
-  intros Hw H Hk. destruct H; try exact Hk.
-  - apply keeps_upd; auto. now apply soft_isoft.
-  - now apply keeps_upd.
-  - destruct (Hw _ H).
-  - apply keeps_upd'; auto.
-  - destruct Hk as [H1 H2]. split; [erewrite rc_next by eauto; auto|].
-    intros c'. unfold get_conn. erewrite rc_conns by eauto. intros E. apply find_filter_id in E. now apply H2.
-  - destruct Hk as [H1 H2]. split; [cbn; lia|exact H2].
-  - destruct Hk as [H1 H2]. unfold accept_conn. split; [cbn; lia|]. intros c'. unfold get_conn. cbn.
-    rewrite find_app_fresh by (cbn; lia). apply H2.
-  - destruct Hk as [H1 H2]. unfold dial_conn. split; [cbn; lia|]. intros c'. unfold get_conn. cbn.
-    rewrite find_app_fresh by (cbn; lia). apply H2.
-Qed.
-
-Lemma trans_keeps nc cid c n n' : trans (MG nc WNone) n n' -> keeps cid c n -> keeps cid c n'.
-Proof. apply trans_inv. intros a b. apply astep_keeps. intros k []. Qed.
-
-(* connection cid, once past CONNECTING, never returns to it (any mode) *)
-Definition ncon (cid : nat) (n : node) : Prop :=
-  cid < n_next_cid n /\ forall c', get_conn n cid = Some c' -> c_state c' <> SConnecting.
 
 Lemma get_conn_upd_cases n k f cid c' : keeps_id f ->
   get_conn (set_conns n (upd_conn (n_conns n) k f)) cid = Some c' ->
@@ -2176,179 +2256,283 @@ Proof.
   - unfold get_conn. cbn. rewrite find_upd_conn_other; auto.
 Qed.
 
-Lemma ncon_upd cid n k f : keeps_id f ->
-  (forall c, get_conn n k = Some c -> c_state (f c) = c_state c \/ c_state (f c) <> SConnecting) ->
-  ncon cid n -> ncon cid (set_conns n (upd_conn (n_conns n) k f)).
+(* a property of "connection i, if it still exists" that new connections, removals and the other
+   connections cannot disturb *)
+Definition at_conn (i : nat) (Q : conn -> Prop) (n : node) : Prop :=
+  i < n_next_cid n /\ forall c', get_conn n i = Some c' -> Q c'.
+
+Lemma at_conn_upd i (Q : conn -> Prop) n k f : keeps_id f ->
+  (forall c, get_conn n k = Some c -> Q c -> Q (f c)) ->
+  at_conn i Q n -> at_conn i Q (set_conns n (upd_conn (n_conns n) k f)).
 Proof.
   intros Hf Hs [H1 H2]. split; auto. intros c' Hc. apply get_conn_upd_cases in Hc; auto.
-  destruct Hc as [[E [c [Hc E']]]|Hc]; [|now apply H2]. subst k c'.
-  destruct (Hs c Hc) as [A|A]; auto. rewrite A. now apply H2.
+  destruct Hc as [[E [c [Hc E']]]|Hc]; [|now apply H2]. subst k c'. apply Hs; auto.
 Qed.
 
-Lemma astep_ncon md cid n n' : astep md n n' -> ncon cid n -> ncon cid n'.
+Lemma at_conn_remove i (Q : conn -> Prop) n cid r c : get_conn n cid = Some c -> at_conn i Q n -> at_conn i Q (remove_conn n cid r).
+Proof.
+  intros H [H1 H2]. split; [erewrite rc_next by eauto; auto|].
+  intros c'. unfold get_conn. erewrite rc_conns by eauto. intros E. apply find_filter_id in E. now apply H2.
+Qed.
+Lemma at_conn_misc i (Q : conn -> Prop) n st k e : n_next_cid n <= k -> at_conn i Q n -> at_conn i Q (set_misc n st k e).
+Proof. intros H [H1 H2]. split; [cbn; lia|exact H2]. Qed.
+Lemma at_conn_accept i (Q : conn -> Prop) n h : at_conn i Q n -> at_conn i Q (accept_conn n h).
+Proof.
+  intros [H1 H2]. unfold accept_conn. split; [cbn; lia|]. intros c'. unfold get_conn. cbn.
+  rewrite find_app_fresh by (cbn; lia). apply H2.
+Qed.
+Lemma at_conn_dial i (Q : conn -> Prop) n name h : at_conn i Q n -> at_conn i Q (dial_conn n name h).
+Proof.
+  intros [H1 H2]. unfold dial_conn. split; [cbn; lia|]. intros c'. unfold get_conn. cbn.
+  rewrite find_app_fresh by (cbn; lia). apply H2.
+Qed.
+
+(* connection i, once past CONNECTING, never returns to it (any mode) *)
+Definition ncon (i : nat) : node -> Prop := at_conn i (fun c => c_state c <> SConnecting).
+
+Lemma astep_ncon md i n n' : astep md n n' -> ncon i n -> ncon i n'.
 Proof.
   intros H Hk. destruct H; try exact Hk.
-  - apply ncon_upd; auto. now apply soft_keeps. intros c _. left. apply H.
-  - apply ncon_upd; auto. now apply isoft_keeps. intros c Hc. destruct (H0 c Hc) as [A|[A _]]; auto.
-  - apply ncon_upd; auto. apply keeps_id_name_fn. intros c _. left. unfold name_fn. destruct (String.eqb _ _); auto.
-  - apply ncon_upd; auto. apply keeps_id_host.
-  - destruct Hk as [H1 H2]. split; [erewrite rc_next by eauto; auto|].
-    intros c'. unfold get_conn. erewrite rc_conns by eauto. intros E. apply find_filter_id in E. now apply H2.
-  - destruct Hk as [H1 H2]. split; [cbn; lia|exact H2].
-  - destruct Hk as [H1 H2]. unfold accept_conn. split; [cbn; lia|]. intros c'. unfold get_conn. cbn.
-    rewrite find_app_fresh by (cbn; lia). apply H2.
-  - destruct Hk as [H1 H2]. unfold dial_conn. split; [cbn; lia|]. intros c'. unfold get_conn. cbn.
-    rewrite find_app_fresh by (cbn; lia). apply H2.
+  - apply at_conn_upd; auto. now apply soft_keeps. intros c _. destruct (H c) as [_ [_ [_ [_ D]]]]. now rewrite D.
+  - apply at_conn_upd; auto. now apply isoft_keeps. intros c Hc Q. destruct (H0 c Hc) as [A|[A _]]; auto. now rewrite A.
+  - apply at_conn_upd; auto. apply keeps_id_name_fn. intros c _. unfold name_fn. destruct (String.eqb _ _); auto.
+  - apply at_conn_upd; auto. apply keeps_id_host.
+  - eapply at_conn_remove; eauto.
+  - now apply at_conn_misc.
+  - now apply at_conn_accept.
+  - now apply at_conn_dial.
 Qed.
 
-Lemma trans_ncon md cid n n' : trans md n n' -> ncon cid n -> ncon cid n'.
+Lemma trans_ncon md i n n' : trans md n n' -> ncon i n -> ncon i n'.
 Proof. apply trans_inv. intros a b. apply astep_ncon. Qed.
 
-Lemma msg_pre_noce md n cid m : (noconn md -> ncon cid n) -> is_cer m = false -> msg_pre md n cid m.
+(* the node name of connection i is nm or still empty: kept by every derivation that writes no other
+   name on i *)
+Definition nm_ok (i : nat) (nm : string) : node -> Prop :=
+  at_conn i (fun c => c_node_name c = nm \/ c_node_name c = ""%string).
+
+Lemma astep_nm_ok md i nm n n' : (forall h, writes md i h -> h = nm) -> astep md n n' -> nm_ok i nm n -> nm_ok i nm n'.
 Proof.
-  intros Hn Hc. split; [intros G; apply (Hn G)|]. intros E R. exfalso. eapply is_cer_false; eauto.
+  intros Hw H Hk. destruct H; try exact Hk.
+  - apply at_conn_upd; auto. now apply soft_keeps. intros c _. destruct (H c) as [_ [_ [C _]]]. now rewrite C.
+  - apply at_conn_upd; auto. now apply isoft_keeps. intros c _. destruct (H c) as [_ [_ [C _]]]. now rewrite C.
+  - destruct Hk as [K1' K2']. split; auto. intros c' Hc. apply get_conn_upd_cases in Hc; [|apply keeps_id_name_fn].
+    destruct Hc as [[E [c [Hc E']]]|Hc]; [|now apply K2']. subst cid c'. unfold name_fn.
+    destruct (String.eqb (c_node_name c) "") eqn:E0; [cbn; left; now apply Hw|now apply K2'].
+  - apply at_conn_upd; auto. apply keeps_id_host.
+  - eapply at_conn_remove; eauto.
+  - now apply at_conn_misc.
+  - now apply at_conn_accept.
+  - now apply at_conn_dial.
 Qed.
 
-Lemma msgs_pre_noce md ms : List.existsb is_cer ms = false ->
-  forall n cid, (noconn md -> ncon cid n) -> msgs_pre md n cid ms.
+(* connection i is outbound, or past CONNECTED: receive_cer will ignore whatever it reads from it *)
+Definition ign (i : nat) : node -> Prop := at_conn i (fun c => c_recv c = false \/ live_st (c_state c)).
+
+Lemma astep_ign md i n n' : astep md n n' -> P_ids n -> ign i n -> ign i n'.
 Proof.
-  induction ms as [|m r IH]; cbn; auto. intros H n cid Hn. apply orb_false_iff in H. destruct H as [H1 H2].
-  assert (Hm : msg_pre md n cid m) by now apply msg_pre_noce.
+  intros H Hi Hk. destruct H; try exact Hk.
+  - apply at_conn_upd; auto. now apply soft_keeps. intros c _. destruct (H c) as [_ [B [_ [_ D]]]]. now rewrite B, D.
+  - apply at_conn_upd; auto. now apply isoft_keeps. intros c Hc Q. destruct (H c) as [_ [B _]]. rewrite B.
+    destruct Q as [Q|Q]; auto. right. destruct (H0 c Hc) as [A|[A1 [A2 _]]]; [now rewrite A|].
+    split; auto. intro E. destruct Q as [Q _]. apply Q. apply A2; auto. apply Hi.
+  - apply at_conn_upd; auto. apply keeps_id_name_fn. intros c _. unfold name_fn. destruct (String.eqb _ _); auto.
+  - apply at_conn_upd; auto. apply keeps_id_host.
+  - eapply at_conn_remove; eauto.
+  - now apply at_conn_misc.
+  - now apply at_conn_accept.
+  - now apply at_conn_dial.
+Qed.
+
+Lemma trans_W_ign md i n n' : trans md n n' -> W n -> ign i n -> W n' /\ ign i n'.
+Proof.
+  intros Ht HW Hi. apply (trans_inv md (fun x => W x /\ ign i x)) with (n := n); auto.
+  intros a b Hab [A B]. split; [eapply astep_W; eauto|eapply astep_ign; eauto; apply A].
+Qed.
+
+(* ---- the precondition of a read, from the guard ---- *)
+Lemma msgs_pre_ign md ms : forall n i, W n -> (noconn md -> ncon i n) -> ign i n -> msgs_pre md n i ms.
+Proof.
+  induction ms as [|m r IH]; intros n i HW Hn Hi; cbn [msgs_pre]; auto.
+  assert (Hm : msg_pre md n i m).
+  { split; [intros G; apply (Hn G)|]. intros _ _ c host Ec Es Er _. exfalso.
+    destruct Hi as [_ Hi]. destruct (Hi c Ec) as [A|[_ A]]; congruence. }
+  assert (Ht : trans md n (fst (dispatch n i m))) by (apply dispatch_t; [exact Hm|constructor]).
+  split; auto. destruct (trans_W_ign _ _ _ _ Ht HW Hi) as [A B]. apply IH; auto.
+  intros G. eapply trans_ncon; [exact Ht|exact (Hn G)].
+Qed.
+
+Lemma msgs_pre_ung md ms : ~ guarded md -> (forall k h, writes md k h) ->
+  forall n i, (noconn md -> ncon i n) -> msgs_pre md n i ms.
+Proof.
+  intros Hg Hw. induction ms as [|m r IH]; intros n i Hn; cbn [msgs_pre]; auto.
+  assert (Hm : msg_pre md n i m).
+  { split; [intros G; apply (Hn G)|]. intros _ _ c host _ _ _ _. split; [apply Hw|intros G; destruct (Hg G)]. }
+  split; auto. apply IH. intros G. eapply trans_ncon; [|exact (Hn G)]. apply dispatch_t; [exact Hm|constructor].
+Qed.
+
+Lemma guard_msg_step nc i w nm n1 m :
+  (forall h, writes (MG nc w) i h -> h = nm) ->
+  msg_pre (MG nc w) n1 i m -> (noconn (MG nc WAll) -> ncon i n1) -> nm_ok i nm n1 ->
+  msg_pre (MG nc WAll) n1 i m /\ (noconn (MG nc WAll) -> ncon i (fst (dispatch n1 i m))) /\
+  nm_ok i nm (fst (dispatch n1 i m)).
+Proof.
+  intros Hw Hm Hn Hk.
+  assert (Ht : trans (MG nc w) n1 (fst (dispatch n1 i m))) by (apply dispatch_t; [exact Hm|constructor]).
+  split; [|split].
+  - destruct Hm as [A B]. split; [exact A|]. intros E R c host Ec Es Er Eo.
+    destruct (B E R c host Ec Es Er Eo) as [_ B2]. split; [exact I|exact B2].
+  - intros G. eapply trans_ncon; [exact Ht|exact (Hn G)].
+  - eapply (trans_inv (MG nc w) (nm_ok i nm)); [|exact Ht|exact Hk]. intros a b Hab. eapply astep_nm_ok; eauto.
+Qed.
+
+Lemma guard_msgs_pre nc i : forall ms nm n1,
+  (noconn (MG nc WAll) -> ncon i n1) -> nm_ok i nm n1 -> cers_agree nm ms -> msgs_pre (MG nc WAll) n1 i ms.
+Proof.
+  induction ms as [|m r IH]; intros nm n1 Hn Hk Ha; cbn [msgs_pre]; auto.
+  cbn [cers_agree] in Ha.
+  assert (Hcase : exists nm', nm_ok i nm' (fst (dispatch n1 i m)) /\ cers_agree nm' r /\
+                  msg_pre (MG nc WAll) n1 i m /\ (noconn (MG nc WAll) -> ncon i (fst (dispatch n1 i m)))).
+  { destruct (is_cer m) eqn:Ei; [destruct (m_origin m) as [| |h] eqn:Eo|].
+    - assert (Hm : msg_pre (MG nc WNone) n1 i m).
+      { split; [intros G; apply (Hn G)|]. intros _ _ c host _ _ _ E. rewrite Eo in E. discriminate E. }
+      destruct (guard_msg_step nc i WNone nm n1 m) as [M1 [M2 M3]]; auto. { intros h []. }
+      exists nm. auto.
+    - assert (Hm : msg_pre (MG nc WNone) n1 i m).
+      { split; [intros G; apply (Hn G)|]. intros _ _ c host _ _ _ E. rewrite Eo in E. discriminate E. }
+      destruct (guard_msg_step nc i WNone nm n1 m) as [M1 [M2 M3]]; auto. { intros h []. }
+      exists nm. auto.
+    - destruct Ha as [Ha1 Ha2].
+      assert (Hk' : nm_ok i h n1).
+      { destruct Hk as [K1' K2']. split; auto. intros c' Ec. destruct (K2' c' Ec) as [A|A]; auto.
+        destruct Ha1 as [B|B]; [right|left]; congruence. }
+      assert (Hm : msg_pre (MG nc (WOn i h)) n1 i m).
+      { split; [intros G; apply (Hn G)|]. intros _ _ c host Ec _ _ E. rewrite Eo in E. inversion E; subst host. split; [split; reflexivity|].
+        intros _. destruct Hk' as [_ K2']. exact (K2' c Ec). }
+      destruct (guard_msg_step nc i (WOn i h) h n1 m) as [M1 [M2 M3]]; auto. { intros h' [_ E]. auto. }
+      exists h. auto.
+    - assert (Hm : msg_pre (MG nc WNone) n1 i m).
+      { split; [intros G; apply (Hn G)|]. intros E R. exfalso. eapply is_cer_false; eauto. }
+      destruct (guard_msg_step nc i WNone nm n1 m) as [M1 [M2 M3]]; auto. { intros h []. }
+      exists nm. auto. }
+  destruct Hcase as [nm' [C1 [C2 [C3 C4]]]]. split; [exact C3|]. apply (IH nm'); auto.
+Qed.
+
+Lemma cers_ok_msgs_pre nc i ms : forall n1,
+  (noconn (MG nc WAll) -> ncon i n1) -> cers_ok n1 i ms -> msgs_pre (MG nc WAll) n1 i ms.
+Proof.
+  induction ms as [|m r IH]; intros n1 Hn Hc; cbn [msgs_pre]; auto. destruct Hc as [H1 H2].
+  assert (Hm : msg_pre (MG nc WAll) n1 i m).
+  { split; [intros G; apply (Hn G)|]. intros E R c host Ec Es Er Eo. split; [exact I|]. intros _.
+    apply (H1 (eq_trans (f_equal2 andb (f_equal (fun x => cmd_eqb x CE) E) R) eq_refl) c host); auto. }
   split; auto. apply IH; auto. intros G. eapply trans_ncon; [|exact (Hn G)]. apply dispatch_t; [exact Hm|constructor].
 Qed.
 
-Lemma guard_msgs_pre nc cid c : forall ms n1,
-  (noconn (MG nc WNone) -> ncon cid n1) -> (keeps cid c n1 \/ cer_count ms = 0) ->
-  (1 <= cer_count ms -> c_node_name c = ""%string) -> cer_count ms <= 1 ->
-  msgs_pre (MG nc (WOn cid)) n1 cid ms.
+Lemma msgs_pre_cers_ok nc i ms : forall n1, msgs_pre (MG nc WAll) n1 i ms -> cers_ok n1 i ms.
 Proof.
-  induction ms as [|m r IH]; intros n1 Hn Hk Hnm Hc; cbn [msgs_pre]; auto.
-  unfold cer_count in Hc, Hk, Hnm. cbn [List.filter] in Hc, Hk, Hnm.
-  assert (Hm : msg_pre (MG nc (WOn cid)) n1 cid m).
-  { destruct (is_cer m) eqn:Ei; [|apply msg_pre_noce; auto]. split; [intros G; apply (Hn G)|].
-    intros _ _ host _. split; [reflexivity|]. intros _ c' Ec.
-    destruct Hk as [[_ Hk]|Hk]; [|cbn in Hk; lia].
-    destruct (Hk c' Ec) as [A B]. rewrite B. right. apply Hnm. cbn. lia. }
-  split; auto. apply IH; auto.
-  - intros G. eapply trans_ncon; [|exact (Hn G)]. apply dispatch_t; [exact Hm|constructor].
-  - destruct (is_cer m) eqn:Ei.
-    + right. cbn in Hc. unfold cer_count. lia.
-    + destruct Hk as [Hk|Hk]; [|right; exact Hk]. left.
-      eapply (trans_keeps nc); [|exact Hk]. apply dispatch_t; [|constructor]. now apply msg_pre_noce.
-  - intros Hr. apply Hnm. destruct (is_cer m); cbn; unfold cer_count in Hr; lia.
-  - destruct (is_cer m); cbn in Hc; unfold cer_count; lia.
+  induction ms as [|m r IH]; intros n1; cbn [msgs_pre cers_ok]; auto. intros [[_ H1] H2]. split; auto.
+  intros Ei c h Ec Er Es Eo. unfold is_cer in Ei. apply andb_true_iff in Ei. destruct Ei as [E1 E2].
+  assert (Em : m_cmd m = CE) by (destruct (m_cmd m); cbn in E1; try discriminate; reflexivity).
+  destruct (H1 Em E2 c h Ec Es Er Eo) as [_ B]. apply B. exact I.
 Qed.
 
-(* connections that have not received a capabilities-exchange request: inbound ones are unnamed *)
-Definition S_seen (seen : list nat) (n : node) : Prop :=
-  forall c, List.In c (n_conns n) -> c_recv c = true -> c_node_name c = ""%string \/ List.In (c_id c) seen.
+Definition mode_of (id nc : bool) : mode := if id then MG nc WAll else if nc then MN else MAny.
 
-Lemma astep_seen md seen n n' : astep md n n' -> (forall k, writes md k -> List.In k seen) ->
-  S_seen seen n -> S_seen seen n'.
+(* one guarded event: the step is a derivation in the mode of the guard *)
+Lemma step_guarded id nc n ds e : W n -> ev_guard id nc n ds e ->
+  trans (mode_of id nc) n (fst (step n ds e)).
 Proof.
-  intros H Hw Hs. destruct H; try exact Hs.
-  - intros c' Hin Hr. cbn in Hin. apply in_upd_conn in Hin. destruct Hin as [Hin|[c [Hin [E _]]]]; auto.
-    subst c'. destruct (H c) as [A [B [C _]]]. rewrite A, C. rewrite B in Hr. auto.
-  - intros c' Hin Hr. cbn in Hin. apply in_upd_conn in Hin. destruct Hin as [Hin|[c [Hin [E _]]]]; auto.
-    subst c'. destruct (H c) as [A [B [C _]]]. rewrite A, C. rewrite B in Hr. auto.
-  - intros c' Hin Hr. cbn in Hin. apply in_upd_conn in Hin. destruct Hin as [Hin|[c [Hin [E Eid]]]]; auto.
-    subst c'. right. rewrite keeps_id_name_fn. rewrite Eid. auto.
-  - intros c' Hin Hr. cbn in Hin. apply in_upd_conn in Hin. destruct Hin as [Hin|[c [Hin [E Eid]]]]; auto.
-    subst c'. cbn in Hr |- *. auto.
-  - intros c' Hin. erewrite rc_conns in Hin by eauto. apply filter_In in Hin. apply Hs. tauto.
-  - intros c' Hin Hr. unfold accept_conn in Hin. cbn in Hin. apply in_app_iff in Hin.
-    destruct Hin as [Hin|[Hin|[]]]; auto. subst c'. auto.
-  - intros c' Hin Hr. unfold dial_conn in Hin. cbn in Hin. apply in_app_iff in Hin.
-    destruct Hin as [Hin|[Hin|[]]]; auto. subst c'. discriminate.
-Qed.
-
-Lemma S_seen_mono s1 s2 n : incl s1 s2 -> S_seen s1 n -> S_seen s2 n.
-Proof. intros Hi Hs c Hin Hr. destruct (Hs c Hin Hr); auto. Qed.
-
-(* one guarded event: the step is a guarded derivation that writes node names only on `ev_seen` *)
-Lemma step_guarded nc n ds e seen : W n -> S_seen seen n -> ev_guard nc n seen e ->
-  exists w, (forall k, writes (MG nc w) k -> List.In k (ev_seen e ++ seen)%list) /\
-            trans (MG nc w) n (fst (step n ds e)).
-Proof.
-  intros HW Hs Hg.
-  assert (Hq : ev_pre (MG nc WNone) n ds e ->
-               exists w, (forall k, writes (MG nc w) k -> List.In k (ev_seen e ++ seen)%list) /\
-                         trans (MG nc w) n (fst (step n ds e))).
-  { intros Hp. exists WNone. split; [intros k []|]. apply step_t; [exact Hp|constructor]. }
+  intros HW Hg.
+  assert (Hq : ev_pre (mode_of id nc) n ds e -> trans (mode_of id nc) n (fst (step n ds e))).
+  { intros Hp. apply step_t; [exact Hp|constructor]. }
   destruct e; try (apply Hq; exact I).
   destruct (get_conn n cid) as [c|] eqn:Ec.
-  2:{ exists WNone. split; [intros k []|]. unfold step. rewrite Ec. constructor. }
-  cbn [ev_guard] in Hg. destruct (Hg c Ec) as [Hst [Hcnt Hout]].
+  2:{ unfold step. rewrite Ec. constructor. }
+  cbn [ev_guard] in Hg. destruct (Hg c Ec) as [Hst Hid].
   destruct (get_conn_some _ _ _ Ec) as [Hin Eid].
-  assert (Hn : noconn (MG nc WNone) -> ncon cid (upd_last_read (fst (fst (io_iteration n ds))) cid)).
-  { intros G. unfold upd_last_read. apply ncon_upd; [intro; reflexivity|intros; left; reflexivity|].
-    eapply (trans_ncon (MG nc WNone)); [apply io_iteration_t; constructor|].
-    destruct HW as [[_ Hlt] _]. split; [apply Hlt in Hin; lia|].
-    intros c' E'. rewrite Ec in E'. inversion E'; subst c'. destruct nc; [exact Hst|destruct G]. }
-  destruct (List.existsb is_cer ms) eqn:Ee.
-  - clear Hq. exists (WOn cid). split.
-    + intros k Hk. cbn in Hk. subst k. cbn. rewrite Ee. now left.
-    + apply step_t; [|constructor]. cbn [ev_pre].
-      pose proof (existsb_count _ Ee) as H1.
-      apply (guard_msgs_pre nc cid c); auto.
-      * left. unfold upd_last_read. apply keeps_upd; [soft_tac|].
-        eapply (trans_keeps nc); [apply io_iteration_t; constructor|].
-        destruct HW as [[_ Hlt] _]. split.
-        -- apply Hlt in Hin. lia.
-        -- intros c' E'. rewrite Ec in E'. inversion E'; auto.
-      * intros _. assert (Hr : c_recv c = true).
-        { destruct (c_recv c); auto. pose proof (Hout eq_refl). lia. }
-        destruct (Hs c Hin Hr) as [A|A]; auto.
-        rewrite Eid in A. apply mem_nat_in in A. rewrite A in Hcnt. lia.
-      * destruct (mem_nat cid seen); lia.
-  - apply Hq. cbn [ev_pre]. apply msgs_pre_noce; auto.
+  assert (Hlt : cid < n_next_cid n) by (destruct HW as [[_ Hlt] _]; apply Hlt in Hin; lia).
+  apply Hq. cbn [ev_pre]. fold (read_state n ds cid) in *. set (n1 := read_state n ds cid) in *.
+  assert (Hn : forall md, (noconn md -> nc = true) -> noconn md -> ncon cid n1).
+  { intros md Hnc G. eapply (trans_ncon md cid n).
+    - unfold n1, read_state, upd_last_read. t_soft. apply io_iteration_t. constructor.
+    - split; [exact Hlt|]. intros c' E'. rewrite Ec in E'. inversion E'; subst c'. rewrite (Hnc G) in Hst. exact Hst. }
+  destruct id; cbn [mode_of].
+  - apply cers_ok_msgs_pre; [|exact Hid]. apply Hn. destruct nc; cbn; [reflexivity|intros []].
+  - destruct nc; cbn [mode_of].
+    + apply msgs_pre_ung; [intros []|intros; exact I|]. apply Hn; auto.
+    + apply msgs_pre_ung; [intros []|intros; exact I|intros []].
 Qed.
 
-(* an invariant of the guarded atomic transitions is an invariant of every guarded run *)
-Lemma run_guarded nc (P : node -> Prop) :
-  (forall n n', astep (MG nc WAll) n n' -> P n -> P n') -> (forall n, P n -> W n) ->
-  forall evs n seen, P n -> S_seen seen n -> guard_from nc n seen evs -> P (fst (run n evs)).
+(* an invariant of the atomic transitions of the guard's mode is an invariant of every guarded run *)
+Lemma run_guarded id nc (P : node -> Prop) :
+  (forall n n', astep (mode_of id nc) n n' -> P n -> P n') -> (forall n, P n -> W n) ->
+  forall evs n, P n -> guard_from id nc n evs -> P (fst (run n evs)).
 Proof.
-  intros HP HPW. induction evs as [|de r IH]; intros n seen HG Hs Hc; [exact HG|].
+  intros HP HPW. induction evs as [|de r IH]; intros n HG Hc; [exact HG|].
   destruct Hc as [H1 H2]. rewrite run_cons.
-  assert (HW : W n) by now apply HPW.
-  destruct (step_guarded nc n (fst de) (snd de) seen HW Hs H1) as [w [Hw Ht]].
-  apply (IH _ (ev_seen (snd de) ++ seen)%list); auto.
-  - eapply (trans_inv (MG nc WAll) P); eauto. eapply trans_all; eauto.
-  - eapply (trans_inv (MG nc w) (S_seen (ev_seen (snd de) ++ seen)%list)); eauto.
-    + intros a b Hab. eapply astep_seen; eauto.
-    + eapply S_seen_mono; [|exact Hs]. apply incl_appr, incl_refl.
+  apply IH; auto. eapply (trans_inv (mode_of id nc) P); eauto. apply step_guarded; auto.
 Qed.
 
-Lemma S_seen_init n : wf_init n -> S_seen [] n.
-Proof. intros [H1 _] c Hin. rewrite H1 in Hin. destruct Hin. Qed.
+(* the condition on the input implies clause (i') *)
+Lemma ev_guard_syn_sem n ds e : W n -> K2 n -> ev_guard_syn n e -> ev_guard true false n ds e.
+Proof.
+  intros HW HK2 Hg. destruct e; try exact I. cbn [ev_guard]. intros c Ec. split; [exact I|].
+  cbn [ev_guard_syn] in Hg. pose proof (Hg c Ec) as Hid.
+  destruct (get_conn_some _ _ _ Ec) as [Hin Eid].
+  assert (Hlt : cid < n_next_cid n) by (destruct HW as [[_ Hlt] _]; apply Hlt in Hin; lia).
+  set (n1 := read_state n ds cid).
+  assert (Ht1 : forall md, trans md n n1).
+  { intros md. unfold n1, read_state, upd_last_read. t_soft. apply io_iteration_t. constructor. }
+  apply (msgs_pre_cers_ok false).
+  assert (Hn : noconn (MG false WAll) -> ncon cid n1) by intros [].
+  assert (Hign : ign cid n -> msgs_pre (MG false WAll) n1 cid ms).
+  { intros Hi. destruct (trans_W_ign _ _ _ _ (Ht1 MAny) HW Hi) as [A B]. apply msgs_pre_ign; auto. }
+  destruct (c_recv c) eqn:Er; [destruct (cstate_eqb (c_state c) SConnected) eqn:Es|].
+  - apply (guard_msgs_pre false cid ms (c_node_name c)); auto.
+    + eapply (trans_inv (MG false WNone) (nm_ok cid (c_node_name c))); [|apply Ht1|].
+      * intros a b Hab. eapply astep_nm_ok; eauto. intros h [].
+      * split; auto. intros c' E'. rewrite Ec in E'. inversion E'. auto.
+    + apply Hid; auto. destruct (c_state c); try discriminate; reflexivity.
+  - apply Hign. split; auto. intros c' E'. rewrite Ec in E'. inversion E'; subst c'. right. split.
+    + now apply HK2.
+    + intro E. rewrite E in Es. discriminate.
+  - apply Hign. split; auto. intros c' E'. rewrite Ec in E'. inversion E'; subst c'. auto.
+Qed.
+
+Theorem cer_guard_syn_sufficient : forall n0 evs, wf_init n0 -> cer_guard_syn n0 evs -> cer_guard n0 evs.
+Proof.
+  intros n0 evs Hw. pose proof (WK_init n0 Hw) as HK. clear Hw. revert n0 HK.
+  induction evs as [|de r IH]; intros n HK; cbn [cer_guard_syn]; [intros _; exact I|]. intros [H1 H2].
+  unfold cer_guard. cbn [guard_from]. pose proof HK as [HW [HK2 _]]. split.
+  - now apply ev_guard_syn_sem.
+  - apply IH; auto. eapply (trans_inv MAny WK); [apply astep_WK| |exact HK].
+    apply step_t; [apply ev_pre_any|constructor].
+Qed.
 
 Lemma reach_c_GC n0 n : reach_c n0 n -> GC n.
 Proof.
-  intros [evs [[Hw Hne] [Hc E]]]. subst n. apply (run_guarded false GC) with (seen := []); auto.
+  intros [evs [[Hw Hne] [Hc E]]]. subst n. apply (run_guarded true false GC); auto.
   - intros a b. apply astep_GC. exact I.
   - intros a H. apply H.
   - now apply GC_init.
-  - now apply S_seen_init.
 Qed.
 
-Lemma reach_g_GI n0 n : reach_g n0 n -> GI n.
+Lemma reach_nc_NI n0 n : reach_nc n0 n -> NI n.
 Proof.
-  intros [evs [[Hw Hne] [Hc E]]]. subst n. apply (run_guarded true GI) with (seen := []); auto.
-  - intros a b. apply astep_GI. exact I.
+  intros [evs [[Hw Hne] [Hc E]]]. subst n. apply (run_guarded false true NI); auto.
+  - intros a b. apply astep_NI. exact I.
   - intros a H. apply H.
-  - now apply GI_init.
-  - now apply S_seen_init.
+  - now apply NI_init.
 Qed.
 
 Lemma GC_parts n : GC n -> W n /\ P_ne n /\ P_own n /\ K1 n /\ G_ident n /\ G_live n /\ G_conv n.
-Proof. intros [[HW [Hne Ho]] [[_ [_ K]] [A [B C]]]]. tauto. Qed.
+Proof. intros [[HW Ho] [Hne [[_ [_ K]] [A [B C]]]]]. tauto. Qed.
 
 Definition past_ce (c : conn) : Prop := is_ready_state (c_state c) = true \/ c_state c = SDisconnecting.
 Lemma past_ce_est c : past_ce c -> est (c_state c).
 Proof. intros [Hs|Hs]; [destruct (c_state c); try discriminate; exact I|rewrite Hs; exact I]. Qed.
 
-(* ---- invariant 3 (C13): under cer_guard (no peer named "", clauses i and ii) ---- *)
+(* ---- invariant 3 (C13): under cer_guard (no peer named "", clause i') ---- *)
 Theorem C13_peer_conn_live : forall n0 n, reach_c n0 n ->
   forall p cid, List.In p (n_peers n) -> p_conn p = Some cid ->
   exists c, List.In c (n_conns n) /\ c_id c = cid /\ c_node_name c = p_name p.
@@ -2405,15 +2589,16 @@ Proof.
   - intros p Hin. destruct (p_conn p) as [k|] eqn:Ek; auto. destruct (Hl p k Hin Ek) as [c [[] _]].
 Qed.
 
-(* ---- invariant 8 under ce_guard: every established connection (either direction) carries the
-   name of a configured peer both as node name and as host identity ---- *)
+(* ---- invariant 8 under ce_guard (i' and iii): every established connection (either direction) carries
+   the name of a configured peer both as node name and as host identity ---- *)
 Theorem C06_ready_known_g : forall n0 n, reach_g n0 n ->
   forall c, List.In c (n_conns n) ->
   is_ready_state (c_state c) = true \/ c_state c = SDisconnecting ->
   c_host c = c_node_name c /\ exists p, List.In p (n_peers n) /\ p_name p = c_node_name c.
 Proof.
-  intros n0 n H c Hin Hs. destruct (reach_g_GI _ _ H) as [HC [Hh _]].
-  destruct (GC_parts _ HC) as [_ [_ [Ho [Hk [Hi _]]]]].
+  intros n0 n H c Hin Hs.
+  destruct (reach_nc_NI _ _ (reach_g_reach_nc _ _ H)) as [_ [_ [_ [Hh _]]]].
+  destruct (GC_parts _ (reach_c_GC _ _ (reach_g_reach_c _ _ H))) as [_ [_ [Ho [Hk [Hi _]]]]].
   pose proof (past_ce_est _ Hs) as He.
   split.
   - destruct (Hi c Hin) as [A|A]; auto. exfalso. eapply Hh; eauto.
@@ -2422,20 +2607,37 @@ Proof.
     + destruct (Ho c Hin Er) as [p [A [B _]]]. eauto.
 Qed.
 
-(* ---- invariant 6 (C19), under ce_guard ---- *)
-Theorem C19_waiting_hosts : forall n0 n, reach_g n0 n ->
+(* ---- invariant 6 (C19), under conn_guard alone (no peer named "", clause iii): every key of
+   _peer_waiting is the host identity of a live connection.  No condition on capabilities-exchange
+   messages is needed: a host identity is written only while the connection is CONNECTED, requests are
+   filed only for connections past that state, and remove_peer_connection drops the entries of the host
+   identity the connection has at that time. ---- *)
+Theorem C19_waiting_hosts : forall n0 n, reach_nc n0 n ->
   forall h, List.In h (List.map fst (n_peer_waiting n)) ->
   h <> ""%string /\ exists c, List.In c (n_conns n) /\ c_host c = h.
-Proof. intros n0 n H h Hh. destruct (reach_g_GI _ _ H) as [_ [_ Hp]]. exact (Hp h Hh). Qed.
+Proof.
+  intros n0 n H h Hh. destruct (reach_nc_NI _ _ H) as [_ [_ [_ [_ Hp]]]].
+  destruct (Hp h Hh) as [A [c [B [C _]]]]. eauto.
+Qed.
 
+Theorem C19_no_conns_no_waiting : forall n0 n, reach_nc n0 n -> n_conns n = [] ->
+  n_half_ready n = [] /\ n_socket_peers n = [] /\ n_peer_waiting n = [].
+Proof.
+  intros n0 n H E. destruct (reach_nc_NI _ _ H) as [[[_ [_ [[T1 [_ [T3 _]]] _]]] _] [_ [_ [_ Hp]]]].
+  unfold G_pw in Hp. rewrite E in T1, T3, Hp. cbn in T1, T3.
+  split; [|split].
+  - destruct (n_half_ready n) as [|x l]; auto. destruct (T1 x (or_introl eq_refl)).
+  - destruct (n_socket_peers n) as [|x l]; auto. destruct (T3 x (or_introl eq_refl)).
+  - destruct (n_peer_waiting n) as [|e l]; auto. destruct (Hp (fst e) (or_introl eq_refl)) as [_ [c [[] _]]].
+Qed.
+
+(* with the peers' connections: ce_guard *)
 Theorem C19_no_conns_no_tables : forall n0 n, reach_g n0 n -> n_conns n = [] ->
   n_half_ready n = [] /\ n_socket_peers n = [] /\ n_peer_waiting n = [] /\
   (forall p, List.In p (n_peers n) -> p_conn p = None).
 Proof.
   intros n0 n H E. destruct (C13_no_conns_no_peer_conn _ _ (reach_g_reach_c _ _ H) E) as [A [B C]].
-  destruct (reach_g_GI _ _ H) as [_ [_ Hp]]. unfold G_pw in Hp. rewrite E in Hp.
-  repeat split; auto.
-  destruct (n_peer_waiting n) as [|e l]; auto. destruct (Hp (fst e) (or_introl eq_refl)) as [_ [c [[] _]]].
+  destruct (C19_no_conns_no_waiting _ _ (reach_g_reach_nc _ _ H) E) as [_ [_ D]]. auto.
 Qed.
 
 (* ---------------------------------------------------------------------------------------- *)
@@ -2456,14 +2658,20 @@ Definition node0 (ps : list peer) : node :=
      n_next_cid := 0; n_half_ready := []; n_socket_peers := [];
      n_routes := [("r"%string, [(RApp 0, List.map p_name ps)])]; n_apps := [app0];
      n_app_waiting := []; n_peer_waiting := []; n_origin_waiting := []; n_sent_answers := []; n_e2e := 1%Z |}.
-(* CER (req = true) / CEA with Result-Code 2001 from Origin-Host o, advertising auth application 4 *)
-Definition ce (req : bool) (o : string) (hbh : Z) : msg :=
+(* CER (req = true) / CEA with Result-Code 2001 from Origin-Host o, advertising the auth applications `auth` *)
+Definition ce_apps (req : bool) (o : string) (hbh : Z) (auth : list Z) : msg :=
   {| m_cmd := CE; m_req := req; m_p := false; m_e := false; m_t := false; m_app := 0%Z; m_hbh := hbh; m_e2e := hbh;
      m_origin := Present o; m_drealm := Undeclared; m_result := (if req then Absent else Present 2001%Z);
-     m_missing := []; m_has_failed_avp_slot := false; m_auth := [4%Z]; m_acct := []; m_tag := 0%Z |}.
+     m_missing := []; m_has_failed_avp_slot := false; m_auth := auth; m_acct := []; m_tag := 0%Z |}.
+(* ... advertising auth application 4 (the node's) *)
+Definition ce (req : bool) (o : string) (hbh : Z) : msg := ce_apps req o hbh [4%Z].
 Definition appreq (o : string) (hbh : Z) : msg :=
   {| m_cmd := App 272%Z; m_req := true; m_p := false; m_e := false; m_t := false; m_app := 4%Z; m_hbh := hbh; m_e2e := hbh;
      m_origin := Present o; m_drealm := Present "r"%string; m_result := Absent;
+     m_missing := []; m_has_failed_avp_slot := false; m_auth := []; m_acct := []; m_tag := 0%Z |}.
+Definition dpr (o : string) (hbh : Z) : msg :=
+  {| m_cmd := DP; m_req := true; m_p := false; m_e := false; m_t := false; m_app := 0%Z; m_hbh := hbh; m_e2e := hbh;
+     m_origin := Present o; m_drealm := Undeclared; m_result := Absent;
      m_missing := []; m_has_failed_avp_slot := false; m_auth := []; m_acct := []; m_tag := 0%Z |}.
 
 Lemma wf_node0 ps : NoDup (List.map p_name ps) ->
@@ -2473,26 +2681,34 @@ Proof. intros H1 H2. unfold wf_init. cbn. repeat (split; [solve [auto]|]). auto.
 Ltac wf_tac :=
   apply wf_node0; [repeat constructor; cbn; intuition discriminate|
                    cbn; intros p Hp; repeat (destruct Hp as [Hp|Hp]; [subst p; cbn; auto|]); destruct Hp].
-(* discharge ce_guard / cer_guard for a concrete history *)
+(* discharge ce_guard / cer_guard / conn_guard for a concrete history *)
+Ltac cer_ok_tac :=
+  intros;
+  repeat match goal with
+         | H : Some _ = Some _ |- _ => inversion H; clear H
+         | H : Present _ = Present _ |- _ => inversion H; clear H
+         end; subst;
+  first [discriminate|cbn; auto].
 Ltac ev_guard_tac :=
   match goal with
-  | |- ev_guard _ _ _ (ERecv _ _) =>
+  | |- ev_guard _ _ _ _ (ERecv _ _) =>
       let c := fresh "c" in let Hc := fresh "Hc" in
-      cbn [ev_guard snd]; intros c Hc; vm_compute in Hc; inversion Hc; subst c; clear Hc;
-      split; [vm_compute; first [exact I|discriminate]|]; split; [vm_compute; lia|];
-      vm_compute; intros; first [reflexivity|discriminate]
-  | |- ev_guard _ _ _ _ => exact I
+      cbn [ev_guard snd fst]; intros c Hc; vm_compute in Hc; inversion Hc; subst c; clear Hc;
+      split; [vm_compute; first [exact I|discriminate]|];
+      vm_compute; repeat match goal with |- _ /\ _ => split end; first [exact I|cer_ok_tac]
+  | |- ev_guard _ _ _ _ _ => exact I
   end.
-Ltac ce_guard_tac := unfold ce_guard, cer_guard; cbn [guard_from]; repeat (split; [cbn [snd fst]; ev_guard_tac|]); try exact I.
+Ltac ce_guard_tac := unfold ce_guard, cer_guard, conn_guard; cbn [guard_from];
+                     repeat (split; [cbn [snd fst]; ev_guard_tac|]); try exact I.
 End Witness.
 Import Witness.
 
-(* a reachable (even under the guard) state with two connections, one of them ready *)
+(* a reachable (even under the guards) state with two connections, one of them ready *)
 Example reachable_two_conns :
   let n0 := node0 [mkpeer "a" true; mkpeer "b" false] in
   let evs := [([], EStart); ([], ERecv 0 [ce false "a" 1%Z]); ([], EAccept 1%Z)] in
   let n := fst (run n0 evs) in
-  reach n0 n /\ reach_c n0 n /\ reach_g n0 n /\
+  reach n0 n /\ reach_c n0 n /\ reach_nc n0 n /\ reach_g n0 n /\
   List.map (fun c => (c_id c, c_recv c, c_state c, c_node_name c, c_host c)) (n_conns n) =
     [(0, false, SReady, "a"%string, "a"%string); (1, true, SConnected, ""%string, ""%string)] /\
   List.map (fun p => (p_name p, p_conn p)) (n_peers n) = [("a"%string, Some 0); ("b"%string, None)] /\
@@ -2503,8 +2719,8 @@ Proof.
   assert (Hg : reach_g n0 n).
   { exists evs. split; [split; [exact Hw|cbn; intuition discriminate]|]. split; [|reflexivity].
     subst n0 evs. ce_guard_tac. }
-  split; [exists evs; auto|]. split; [now apply reach_g_reach_c|]. split; [exact Hg|].
-  vm_compute. auto.
+  split; [exists evs; auto|]. split; [now apply reach_g_reach_c|]. split; [now apply reach_g_reach_nc|].
+  split; [exact Hg|]. vm_compute. auto.
 Qed.
 
 (* ---- the election (RFC 6733 5.6.4), guarded histories.  Peer "a" < local host "me": the second
@@ -2543,42 +2759,40 @@ Proof.
   - vm_compute. auto.
 Qed.
 
-(* ---- FINDING (C13), clause (i) of the guard is needed: a second CER on the same (inbound)
-   connection.  Peers b, c; an accepted connection sends CER "b" then CER "c": the node name stays b,
-   the host identity becomes c and _assign_peer_connection files the connection under c as well; when
-   the connection closes remove_peer_connection clears only b (found by node name): c.connection
-   dangles.  (The former witness -- a CEA carrying a foreign Origin-Host -- is no longer a
-   counterexample: the repaired receive_cea closes the connection.) ---- *)
-Theorem C13_second_cer_refuted :
-  exists n0 evs, wf_init_g n0 /\
-    let n := fst (run n0 evs) in
-    exists p cid, List.In p (n_peers n) /\ p_conn p = Some cid /\
-                  ~ List.In cid (List.map c_id (n_conns n)) /\ n_conns n = [].
+(* ---- the repaired receive_cer: what used to be the counterexamples to C13 / C19 without clauses (i)
+   and (ii) -- a second CER (other Origin-Host) on a READY inbound connection, a CER on a READY outbound
+   connection -- is now ignored; the histories are guarded ---- *)
+Example second_cer_ignored :
+  let n0 := node0 [mkpeer "b" false; mkpeer "c" false] in
+  let evs := [([], EAccept 1%Z); ([], ERecv 0 [ce true "b" 1%Z; appreq "b" 7%Z; ce true "c" 2%Z])] in
+  let n := fst (run n0 evs) in
+  reach_g n0 n /\
+  List.map (fun c => (c_id c, c_state c, c_node_name c, c_host c)) (n_conns n) = [(0, SReady, "b"%string, "b"%string)] /\
+  List.map (fun p => (p_name p, p_conn p)) (n_peers n) = [("b"%string, Some 0); ("c"%string, None)] /\
+  n_peer_waiting n = [("b"%string, [(7%Z, 7%Z)])].
 Proof.
-  exists (node0 [mkpeer "b" false; mkpeer "c" false]).
-  exists [([], EAccept 1%Z); ([], ERecv 0 [ce true "b" 1%Z; ce true "c" 2%Z]); ([], EPeerClose 0)].
-  split; [split; [wf_tac|cbn; intuition discriminate]|].
-  vm_compute. eexists. exists 0. split; [right; left; reflexivity|]. cbn. auto.
+  intros n0 evs n. split.
+  - exists evs. split; [split; [subst n0; wf_tac|cbn; intuition discriminate]|]. split; [|reflexivity].
+    subst n0 evs. ce_guard_tac.
+  - vm_compute. auto.
 Qed.
 
-(* ---- FINDING (C13), clause (ii) of the guard is needed: a CER read from an established OUTBOUND
-   connection.  The node dials a (connection 0), the exchange completes; a CER with Origin-Host "b" on
-   connection 0 passes the gate (READY): the connection is filed under b; when it closes only a is
-   cleared. ---- *)
-Theorem C13_outbound_cer_refuted :
-  exists n0 evs, wf_init_g n0 /\
-    let n := fst (run n0 evs) in
-    exists p cid, List.In p (n_peers n) /\ p_conn p = Some cid /\
-                  ~ List.In cid (List.map c_id (n_conns n)) /\ n_conns n = [].
+Example outbound_cer_ignored :
+  let n0 := node0 [mkpeer "a" true; mkpeer "b" false] in
+  let evs := [([], EStart); ([], ERecv 0 [ce false "a" 1%Z]); ([], ERecv 0 [ce true "b" 2%Z])] in
+  let n := fst (run n0 evs) in
+  reach_g n0 n /\
+  List.map (fun c => (c_id c, c_state c, c_node_name c, c_host c)) (n_conns n) = [(0, SReady, "a"%string, "a"%string)] /\
+  List.map (fun p => (p_name p, p_conn p)) (n_peers n) = [("a"%string, Some 0); ("b"%string, None)].
 Proof.
-  exists (node0 [mkpeer "a" true; mkpeer "b" false]).
-  exists [([], EStart); ([], ERecv 0 [ce false "a" 1%Z]); ([], ERecv 0 [ce true "b" 2%Z]); ([], EPeerClose 0)].
-  split; [split; [wf_tac|cbn; intuition discriminate]|].
-  vm_compute. eexists. exists 0. split; [right; left; reflexivity|]. cbn. auto.
+  intros n0 evs n. split.
+  - exists evs. split; [split; [subst n0; wf_tac|cbn; intuition discriminate]|]. split; [|reflexivity].
+    subst n0 evs. ce_guard_tac.
+  - vm_compute. auto.
 Qed.
 
 (* ---- the repaired receive_cea: the former counterexample to C13_peer_conn_live (CEA with a foreign
-   Origin-Host on the dialled connection) now closes the connection with CER_REJECTED; the history is
+   Origin-Host on the dialled connection) closes the connection with CER_REJECTED; the history is
    guarded (answers are unrestricted) ---- *)
 Example cea_foreign_identity_closed :
   let n0 := node0 [mkpeer "a" true; mkpeer "b" false] in
@@ -2594,44 +2808,67 @@ Proof.
   - vm_compute. auto.
 Qed.
 
-(* ---- FINDING (C19): without clause (i), _peer_waiting leaks.  Peers b, c; an accepted connection
-   sends CER "b", an application request (filed under host b), then a second CER "c" (accepted on
-   the READY connection: its host identity becomes c); when the connection closes only the entry of
-   host c is dropped.  No connection is left, the entry of b stays for ever; c.connection dangles. *)
-Theorem C19_waiting_hosts_refuted :
-  exists n0 evs, wf_init_g n0 /\
+(* ---- FINDING (C13), clause (i') of the guard is needed.  A CER answered 5010 NO_COMMON_APPLICATION
+   leaves the connection CONNECTED with its node name set.  Peers b, c; an accepted connection sends
+   CER "b" advertising only application 5 (answer 5010), then CER "c" advertising application 4: the
+   node name stays b (it is filled in only when empty), the election sees no rival named c, the host
+   identity becomes c and _assign_peer_connection files the connection under c; when the connection
+   closes remove_peer_connection looks the peer up by node name (b): c.connection dangles.  The
+   history satisfies clause (iii). ---- *)
+Theorem C13_cer_origin_change_refuted :
+  exists n0 evs, wf_init_g n0 /\ conn_guard n0 evs /\
     let n := fst (run n0 evs) in
-    n_conns n = [] /\ n_half_ready n = [] /\ n_socket_peers n = [] /\
-    exists h, List.In h (List.map fst (n_peer_waiting n)) /\ h <> ""%string.
+    exists p cid, List.In p (n_peers n) /\ p_conn p = Some cid /\
+                  ~ List.In cid (List.map c_id (n_conns n)) /\ n_conns n = [].
 Proof.
   exists (node0 [mkpeer "b" false; mkpeer "c" false]).
-  exists [([], EAccept 1%Z); ([], ERecv 0 [ce true "b" 1%Z; appreq "b" 7%Z; ce true "c" 2%Z]); ([], EPeerClose 0)].
-  split; [split; [wf_tac|cbn; intuition discriminate]|].
-  vm_compute. repeat split. exists "b"%string. split; [now left|discriminate].
+  exists [([], EAccept 1%Z); ([], ERecv 0 [ce_apps true "b" 1%Z [5%Z]; ce true "c" 2%Z]); ([], EPeerClose 0)].
+  split; [split; [wf_tac|cbn; intuition discriminate]|]. split; [ce_guard_tac|].
+  vm_compute. eexists. exists 0. split; [right; left; reflexivity|]. cbn. auto.
 Qed.
 
-(* ---- FINDING (C13, converse): without clause (i) the run-level converse fails: after CER "p", CER "q"
-   on connection 0 (q.connection = 0, node name p) a first CER "q" on connection 1 finds no rival named
-   q; connection 1 is READY, named q, and q.connection is still 0.  (The former witnesses -- two
-   connections of the same peer, one CER each -- are no longer counterexamples: the election refuses
-   or replaces the second connection, see election_won / election_lost and C13_peer_conn_exact.) ---- *)
+(* ---- FINDING (C13, converse and host identities): without clause (i') the run-level converse and
+   C06_ready_known_g fail as well: after CER "p" (5010), CER "q" on connection 0 (READY, node name p,
+   host identity q, q.connection = 0) a first CER "q" on connection 1 finds no rival named q; connection 1
+   is READY, named q, and q.connection is still 0. ---- *)
 Theorem C13_peer_conn_exact_unguarded_refuted :
-  exists n0 evs, wf_init_g n0 /\
+  exists n0 evs, wf_init_g n0 /\ conn_guard n0 evs /\
     let n := fst (run n0 evs) in
-    exists p c, List.In p (n_peers n) /\ List.In c (n_conns n) /\ c_node_name c = p_name p /\
-                is_ready_state (c_state c) = true /\ p_conn p <> Some (c_id c).
+    (exists p c, List.In p (n_peers n) /\ List.In c (n_conns n) /\ c_node_name c = p_name p /\
+                 is_ready_state (c_state c) = true /\ p_conn p <> Some (c_id c)) /\
+    (exists c, List.In c (n_conns n) /\ is_ready_state (c_state c) = true /\ c_host c <> c_node_name c).
 Proof.
   exists (node0 [mkpeer "p" false; mkpeer "q" false]).
-  exists [([], EAccept 1%Z); ([], ERecv 0 [ce true "p" 1%Z; ce true "q" 2%Z]); ([], EAccept 1%Z); ([], ERecv 1 [ce true "q" 1%Z])].
-  split; [split; [wf_tac|cbn; intuition discriminate]|].
-  vm_compute. eexists. eexists. split; [right; left; reflexivity|]. split; [right; left; reflexivity|]. cbn.
+  exists [([], EAccept 1%Z); ([], ERecv 0 [ce_apps true "p" 1%Z [5%Z]; ce true "q" 2%Z]); ([], EAccept 1%Z);
+          ([], ERecv 1 [ce true "q" 1%Z])].
+  split; [split; [wf_tac|cbn; intuition discriminate]|]. split; [ce_guard_tac|].
+  vm_compute. split.
+  - eexists. eexists. split; [right; left; reflexivity|]. split; [right; left; reflexivity|]. cbn.
+    repeat split; auto. discriminate.
+  - eexists. split; [left; reflexivity|]. cbn. split; auto. discriminate.
+Qed.
+
+(* ... and C13_one_conn_per_peer: an accepted connection is named p by a CER answered 5010; the node then
+   dials p (p.connection is unset) and completes the exchange on connection 1; a CER "c" on connection 0
+   makes it READY under its old node name: two READY connections named p. *)
+Theorem C13_one_conn_per_peer_unguarded_refuted :
+  exists n0 evs, wf_init_g n0 /\ conn_guard n0 evs /\
+    let n := fst (run n0 evs) in
+    exists c1 c2, List.In c1 (n_conns n) /\ List.In c2 (n_conns n) /\ c_node_name c1 = c_node_name c2 /\
+                  is_ready_state (c_state c1) = true /\ is_ready_state (c_state c2) = true /\ c_id c1 <> c_id c2.
+Proof.
+  exists (node0 [mkpeer "p" true; mkpeer "c" false]).
+  exists [([], EAccept 1%Z); ([], ERecv 0 [ce_apps true "p" 1%Z [5%Z]]); ([], EStart); ([], ERecv 1 [ce false "p" 1%Z]);
+          ([], ERecv 0 [ce true "c" 2%Z])].
+  split; [split; [wf_tac|cbn; intuition discriminate]|]. split; [ce_guard_tac|].
+  vm_compute. eexists. eexists. split; [left; reflexivity|]. split; [right; left; reflexivity|]. cbn.
   repeat split; auto. discriminate.
 Qed.
 
-(* ---- clause (iii) of the guard is needed (not affected by the repair): the gate of PeerConnection
+(* ---- clause (iii) of the guard is needed (not affected by the repairs): the gate of PeerConnection
    lets everything through in state CONNECTING; an application request read from a connection whose
    connect() is still in progress is filed under the empty host identity and is never dropped.  The
-   history satisfies clauses (i) and (ii). ---- *)
+   history satisfies clause (i'). ---- *)
 Theorem C19_connecting_read_refuted :
   exists n0 evs, wf_init_g n0 /\ cer_guard n0 evs /\
     let n := fst (run n0 evs) in
@@ -2644,22 +2881,46 @@ Proof.
   vm_compute. auto.
 Qed.
 
-(* ---- FINDING (C12): the hypothesis "no peer is named the empty string" is needed: a CER received
-   on a READY outbound connection to the peer named "" renames the connection; two outbound
-   connections then carry the node name "q" (the renamed one loses the election and is CLOSING; it
-   stays as long as its socket accepts no writes; once it is removed, the connection of peer ""
-   dangles). ---- *)
-Theorem C12_empty_name_refuted :
-  exists n0 evs, wf_init n0 /\
+(* ... and for C06_ready_known_g: a DPR read from a CONNECTING connection makes it DISCONNECTING without a
+   host identity *)
+Theorem C06_connecting_read_refuted :
+  exists n0 evs, wf_init_g n0 /\ cer_guard n0 evs /\
     let n := fst (run n0 evs) in
-    exists c1 c2, List.In c1 (n_conns n) /\ List.In c2 (n_conns n) /\ c_recv c1 = false /\ c_recv c2 = false /\
-                  c_node_name c1 = c_node_name c2 /\ c_id c1 <> c_id c2.
+    exists c, List.In c (n_conns n) /\ c_state c = SDisconnecting /\ c_host c <> c_node_name c.
 Proof.
-  exists (node0 [mkpeer "" true; mkpeer "q" true]).
-  exists [([], EStart); ([], ERecv 0 [ce false "" 1%Z]); ([], EStall 0 true); ([], ERecv 0 [ce true "q" 2%Z])].
-  split; [wf_tac|].
-  vm_compute. eexists. eexists. split; [left; reflexivity|]. split; [right; left; reflexivity|]. cbn.
-  repeat split; auto; discriminate.
+  exists (node0 [mkpeer "a" true]).
+  exists [([(1%Z, DialInProgress)], EStart); ([], ERecv 0 [dpr "a" 7%Z])].
+  split; [split; [wf_tac|cbn; intuition discriminate]|]. split; [ce_guard_tac|].
+  vm_compute. eexists. split; [left; reflexivity|]. cbn. split; auto. discriminate.
+Qed.
+
+(* ---- FINDING: the hypothesis "no peer is named the empty string" is needed for C13 and C19.  The node
+   dials the peer named ""; receive_cea accepts any Origin-Host on a connection without node name: the
+   CEA of "q" files the connection under q; when it closes only the peer "" is cleared (C13).  With the
+   CEA of "" the connection is READY without host identity and a request is filed under "" (C19).  Both
+   histories satisfy (i') and (iii).  (C12 no longer needs the hypothesis: the former witness, a CER on a
+   READY outbound connection, is ignored.) ---- *)
+Theorem C13_empty_name_refuted :
+  exists n0 evs, wf_init n0 /\ ce_guard n0 evs /\
+    let n := fst (run n0 evs) in
+    exists p cid, List.In p (n_peers n) /\ p_conn p = Some cid /\
+                  ~ List.In cid (List.map c_id (n_conns n)) /\ n_conns n = [].
+Proof.
+  exists (node0 [mkpeer "" true; mkpeer "q" false]).
+  exists [([], EStart); ([], ERecv 0 [ce false "q" 1%Z]); ([], EPeerClose 0)].
+  split; [wf_tac|]. split; [ce_guard_tac|].
+  vm_compute. eexists. exists 0. split; [right; left; reflexivity|]. cbn. auto.
+Qed.
+
+Theorem C19_empty_name_refuted :
+  exists n0 evs, wf_init n0 /\ ce_guard n0 evs /\
+    let n := fst (run n0 evs) in
+    List.In ""%string (List.map fst (n_peer_waiting n)).
+Proof.
+  exists (node0 [mkpeer "" true]).
+  exists [([], EStart); ([], ERecv 0 [ce false "" 1%Z]); ([], ERecv 0 [appreq "x" 7%Z])].
+  split; [wf_tac|]. split; [ce_guard_tac|].
+  vm_compute. auto.
 Qed.
 
 (* ---------------------------------------------------------------------------------------- *)
@@ -2774,24 +3035,29 @@ Print Assumptions C19_windows_bounded.
 Print Assumptions C12_outbound_owned.
 Print Assumptions C12_single_outbound.
 Print Assumptions C06_ready_inbound_known.
+Print Assumptions cer_guard_syn_sufficient.
 Print Assumptions C13_peer_conn_live.
 Print Assumptions C13_peer_conn_live_strong.
 Print Assumptions C13_peer_conn_exact.
 Print Assumptions C13_one_conn_per_peer.
 Print Assumptions C13_no_conns_no_peer_conn.
-Print Assumptions C06_ready_known_g.
 Print Assumptions C19_waiting_hosts.
+Print Assumptions C19_no_conns_no_waiting.
+Print Assumptions C06_ready_known_g.
 Print Assumptions C19_no_conns_no_tables.
 Print Assumptions reachable_two_conns.
 Print Assumptions election_won.
 Print Assumptions election_lost.
+Print Assumptions second_cer_ignored.
+Print Assumptions outbound_cer_ignored.
 Print Assumptions cea_foreign_identity_closed.
-Print Assumptions C13_second_cer_refuted.
-Print Assumptions C13_outbound_cer_refuted.
+Print Assumptions C13_cer_origin_change_refuted.
 Print Assumptions C13_peer_conn_exact_unguarded_refuted.
-Print Assumptions C19_waiting_hosts_refuted.
+Print Assumptions C13_one_conn_per_peer_unguarded_refuted.
 Print Assumptions C19_connecting_read_refuted.
-Print Assumptions C12_empty_name_refuted.
+Print Assumptions C06_connecting_read_refuted.
+Print Assumptions C13_empty_name_refuted.
+Print Assumptions C19_empty_name_refuted.
 Print Assumptions C13_ready_flag_partial.
 Print Assumptions C13_ready_flag_removed.
 Print Assumptions C13_peer_conn_converse_partial.
